@@ -1,11 +1,13 @@
 /-
-  Rsdns.Lemmas.History — the reader along protocol-conforming histories over a skippable message:
-  definitions (`PassAll`, `MidRec`, `QIdx`, `Sit`, `Ghost`, `DocT`, `Allowed`, `nextPend`) and the
-  per-call lemmas (header / data / question steps, the skipping loops of `seek`, `seek_live`, the
-  situation-wise step lemmas) behind `Rsdns.Props.C09` part 4.
+  Rsdns.Lemmas.History — the reader along protocol-conforming histories, for ANY message:
+  definitions (`PassUpto` / `PassAll`, `Pad`, `Fails`, `Reached`, `MidRec`, `MidBad`, `QIdx`, `Sit`,
+  `Ghost`, `DocT`, `Allowed`, `nextPend`) and the per-call lemmas (header / data / question steps, the
+  skipping loops of `seek` — succeeding over the skippable prefix, failing at the item that cannot be
+  skipped —, `seek_live`, the situation-wise step lemmas) behind `Rsdns.Props.C09History`.
 -/
 import Rsdns.Props.C09
 import Rsdns.Lemmas.Decode
+import Rsdns.Lemmas.Inv
 
 set_option linter.unusedVariables false
 
@@ -13,12 +15,121 @@ namespace Rsdns.C09
 
 open Rsdns Generated
 
-/-- `L` is the layout of the skip pass over `msg`: questions from offset 12, then the records -/
-structure PassAll (msg : Bytes) (L : Lay) : Prop where
+/-- `L` is the layout of the skip pass over `msg` as far as it gets: the first `nq` questions (from
+    offset 12) and — only when all questions can be skipped — the first `nr` records can be skipped one
+    after the other. -/
+structure PassUpto (msg : Bytes) (L : Lay) (nq nr : Nat) : Prop where
   q0 : L.qEnd 0 = 12
-  ques : ∀ j, j < L.qd →
+  nq_le : nq ≤ L.qd
+  nr_le : nr ≤ L.n
+  gate : nq < L.qd → nr = 0
+  ques : ∀ j, j < nq →
     skipQuestion msg (Cur.withPos msg (L.qEnd j)) = (.ok (), Cur.withPos msg (L.qEnd (j + 1)))
-  recs : ∀ i, i < L.n → skipRr msg (Cur.withPos msg (L.rOff i)) = (.ok (), Cur.withPos msg (L.rOff (i + 1)))
+  recs : ∀ i, i < nr → skipRr msg (Cur.withPos msg (L.rOff i)) = (.ok (), Cur.withPos msg (L.rOff (i + 1)))
+
+/-- the whole message can be skipped: every question and every record -/
+abbrev PassAll (msg : Bytes) (L : Lay) : Prop := PassUpto msg L L.qd L.n
+
+/-! ### which offsets a tracker operation can learn -/
+
+theorem markFirst_off_cases (t : Tracker) (pos s j : Nat) :
+    (markFirst t pos s).off j = t.off j ∨ (markFirst t pos s).off j = asU16 pos := by
+  unfold markFirst
+  split
+  · simp only [upd]; split
+    · right; rfl
+    · left; rfl
+  · left; rfl
+
+theorem backFill_off_cases (t : Tracker) (pos : Nat) : ∀ (p j : Nat),
+    (backFill t pos p).off j = t.off j ∨ (backFill t pos p).off j = asU16 pos
+  | 0, j => Or.inl rfl
+  | p + 1, j => by
+    unfold backFill
+    split
+    · rcases backFill_off_cases { t with off := upd t.off p (asU16 pos) } pos p j with h | h
+      · rw [h]
+        simp only [upd]
+        split
+        · right; rfl
+        · left; rfl
+      · right; exact h
+    · left; rfl
+
+theorem fwdFill_off_cases (t : Tracker) (pos : Nat) : ∀ (fuel n j : Nat),
+    (fwdFill t pos n fuel).off j = t.off j ∨ (fwdFill t pos n fuel).off j = asU16 pos
+  | 0, _, _ => Or.inl rfl
+  | fuel + 1, n, j => by
+    unfold fwdFill
+    split
+    · split
+      · simp only
+        split
+        · simp only [upd]; split
+          · right; rfl
+          · left; rfl
+        · rcases fwdFill_off_cases { t with off := upd t.off n (asU16 pos) } pos fuel (n + 1) j with h | h
+          · rw [h]
+            simp only [upd]
+            split
+            · right; rfl
+            · left; rfl
+          · right; exact h
+      · left; rfl
+    · left; rfl
+
+/-- `next_section(pos)` leaves every stored offset as it was or sets it to `pos` -/
+theorem nextSection_off_cases (t : Tracker) (pos j : Nat) :
+    (t.nextSection pos).2.off j = t.off j ∨ (t.nextSection pos).2.off j = asU16 pos := by
+  by_cases h0 : (t.sec 0).read < (t.sec 0).total
+  · rw [nextSection_eq0 t pos h0]; exact markFirst_off_cases t pos 0 j
+  · by_cases h1 : (t.sec 1).read < (t.sec 1).total
+    · rw [nextSection_eq1 t pos h0 h1]
+      rcases backFill_off_cases (markFirst t pos 1) pos 1 j with h | h
+      · rw [h]; exact markFirst_off_cases t pos 1 j
+      · right; exact h
+    · by_cases h2 : (t.sec 2).read < (t.sec 2).total
+      · rw [nextSection_eq2 t pos h0 h1 h2]
+        rcases backFill_off_cases (markFirst t pos 2) pos 2 j with h | h
+        · rw [h]; exact markFirst_off_cases t pos 2 j
+        · right; exact h
+      · left
+        rw [Tracker.nextSection, Tracker.nextSectionFrom]
+        simp only [Nat.reduceAdd, Nat.sub_self, if_neg h0]
+        rw [Tracker.nextSectionFrom]
+        simp only [Nat.reduceAdd, Nat.reduceSub, if_neg h1]
+        rw [Tracker.nextSectionFrom]
+        simp only [Nat.reduceAdd, Nat.reduceSub, if_neg h2]
+        rw [Tracker.nextSectionFrom]
+
+theorem sectionRead_off_cases {t t' : Tracker} {s pos : Nat} (h : t.sectionRead s pos = .ok t') (j : Nat) :
+    t'.off j = t.off j ∨ t'.off j = asU16 pos := by
+  have hov : ¬ ((t.sec s).read + 1 > 65535) := by
+    intro hc
+    unfold Tracker.sectionRead at h
+    simp only [hc, if_true] at h
+    cases h
+  rw [sectionRead_eq t s pos (by omega)] at h
+  simp only [Res.ok.injEq] at h
+  rw [← h]
+  split
+  · exact fwdFill_off_cases (bump t s) pos 3 (s + 1) j
+  · left; rfl
+
+theorem questionRead_off_cases {t t' : Tracker} {pos : Nat} (h : t.questionRead pos = .ok t') (j : Nat) :
+    t'.off j = t.off j ∨ t'.off j = asU16 pos := by
+  have hov : ¬ (t.qd.read + 1 > 65535) := by
+    intro hc
+    unfold Tracker.questionRead at h
+    simp only [hc, if_true] at h
+    cases h
+  rw [questionRead_eq t pos (by omega)] at h
+  simp only [Res.ok.injEq] at h
+  rw [← h]
+  split
+  · exact fwdFill_off_cases (bumpQ t) pos 3 0 j
+  · left; rfl
+
 
 theorem skipName_advances (msg : Bytes) (c c1 : Cur) (n : Nat) (h : skipName msg c = .ok (n, c1)) :
     c.pos < c1.pos ∧ c1.lim = c.lim ∧ c1.orig = c.orig := by
@@ -73,13 +184,15 @@ structure MidRec (msg : Bytes) (L : Lay) (r : Reader) (m : Marker) : Prop where
 /-- **header step.** From a live reader between records, with a record left: any record-header call
     either fails (and latches) or returns the marker of the record at the current index and leaves the
     reader in the middle of that record. -/
-theorem header_step (msg : Bytes) (L : Lay) (hL : L.WF) (hP : PassAll msg L) (r : Reader) (hA : AtIndex msg L r)
-    (hi : idx r.tr < L.n) (k : HKind) :
+theorem header_step (msg : Bytes) (L : Lay) (hL : L.WF) {nq nr : Nat} (hP : PassUpto msg L nq nr) (r : Reader)
+    (hA : AtIndex msg L r) (hi : idx r.tr < nr) (k : HKind) :
     (∃ hn m r1, r.recordHeader msg k = (.ok (hn, m), r1) ∧ MidRec msg L r1 m ∧ idx r1.tr = idx r.tr ∧
-        r1.tr.qd = r.tr.qd ∧ (∀ j, r.tr.off j ≠ 0 → r1.tr.off j ≠ 0)) ∨
+        r1.tr.qd = r.tr.qd ∧ (∀ j, r.tr.off j ≠ 0 → r1.tr.off j ≠ 0) ∧
+        (∀ j, r1.tr.off j = r.tr.off j ∨ r1.tr.off j = asU16 (L.rOff (idx r.tr)))) ∨
     (∃ e r1, r.recordHeader msg k = (.err e, r1) ∧ r1.done = true) ∨
     (∃ p r1, r.recordHeader msg k = (.panic p, r1)) := by
   have hok := recordHeader_ok (msg := msg) hA.inv k
+  have hiL : idx r.tr < L.n := Nat.lt_of_lt_of_le hi hP.nr_le
   cases hres : r.recordHeader msg k with
   | mk res r1 =>
     cases res with
@@ -98,14 +211,20 @@ theorem header_step (msg : Bytes) (L : Lay) (hL : L.WF) (hP : PassAll msg L) (r 
       rw [← hcur] at hrec
       obtain ⟨hoff, hp1, hl1, ho1, hend, hdone1, s, hns, hsec⟩ := headerImpl_position msg r k _ hrec hn m r1 hh'
       simp only [Cur.withPos] at hl1 ho1 hend
-      obtain ⟨s', t', hns', hsecof, hsame, hqd, hk, hT1, hmono⟩ := nextSection_some L hL r.tr hA.tinv hi
+      obtain ⟨s', t', hns', hsecof, hsame, hqd, hk, hT1, hmono⟩ := nextSection_some L hL r.tr hA.tinv hiL
       rw [← hA.pos, hns] at hns'
       simp only [Prod.mk.injEq, Option.some.injEq] at hns'
       obtain ⟨rfl, rfl⟩ := hns'
       have hidx1 : idx r1.tr = idx r.tr := idx_congr hsame
       have hr1 : RInv msg r1 := by rw [hres] at hok; exact hok.2
-      refine ⟨hn, m, r1, rfl, ?_, hidx1, hqd, hmono⟩
-      refine ⟨hr1, ho1, by rw [hdone1]; exact hA.live, hT1, by rw [hidx1]; exact hi, ?_, by rw [hsec]; exact hk, hp1,
+      have hcases : ∀ j, r1.tr.off j = r.tr.off j ∨ r1.tr.off j = asU16 (L.rOff (idx r.tr)) := by
+        intro j
+        have := nextSection_off_cases r.tr r.cur.pos j
+        rw [hns] at this
+        rw [← hA.pos]
+        exact this
+      refine ⟨hn, m, r1, rfl, ?_, hidx1, hqd, hmono, hcases⟩
+      refine ⟨hr1, ho1, by rw [hdone1]; exact hA.live, hT1, by rw [hidx1]; exact hiL, ?_, by rw [hsec]; exact hk, hp1,
         by rw [hidx1, ← hend], by rw [hoff, hidx1, hA.pos], ?_⟩
       · rw [hsec]
         exact ⟨hsecof.1, by intro j hj; rw [hsame]; exact hsecof.2.1 j hj, by rw [hsame]; exact hsecof.2.2⟩
@@ -123,7 +242,8 @@ theorem header_step (msg : Bytes) (L : Lay) (hL : L.WF) (hP : PassAll msg L) (r 
 theorem data_step (msg : Bytes) (L : Lay) (hL : L.WF) (r1 r2 : Reader) (m : Marker) (hM : MidRec msg L r1 m)
     (hd : DataCall msg r1 r2 m) :
     AtIndex msg L r2 ∧ idx r2.tr = idx r1.tr + 1 ∧ r2.tr.qd = r1.tr.qd ∧ (∀ j, r1.tr.off j ≠ 0 → r2.tr.off j ≠ 0) ∧
-      (∀ s', m.section_ < s' → s' < 3 → L.start s' = idx r1.tr + 1 → r2.tr.off s' ≠ 0) := by
+      (∀ s', m.section_ < s' → s' < 3 → L.start s' = idx r1.tr + 1 → r2.tr.off s' ≠ 0) ∧
+      (∀ j, r2.tr.off j = r1.tr.off j ∨ r2.tr.off j = asU16 (L.rOff (idx r1.tr + 1))) := by
   obtain ⟨hp2, hl2, ho2, hdone2, t2, hsr, ht2⟩ := data_position msg r1 r2 m hM.inv hd
   have hpos2 : r2.cur.pos = L.rOff (idx r1.tr + 1) := by rw [hp2, hM.endp]
   obtain ⟨t3, hsr3, hT3, hi3, hq3, hmono, hkn⟩ := sectionRead_spec L hL r1.tr hM.tinv m.section_ hM.sec hM.known
@@ -131,9 +251,13 @@ theorem data_step (msg : Bytes) (L : Lay) (hL : L.WF) (r1 r2 : Reader) (m : Mark
   simp only [Res.ok.injEq] at hsr3
   subst hsr3
   refine ⟨⟨DataCall.inv hM.inv hd, by rw [ho2]; exact hM.orig, by rw [hpos2, ht2, hi3], by rw [ht2]; exact hT3,
-    by rw [hdone2]; exact hM.live⟩, by rw [ht2, hi3], by rw [ht2, hq3], ?_, ?_⟩
+    by rw [hdone2]; exact hM.live⟩, by rw [ht2, hi3], by rw [ht2, hq3], ?_, ?_, ?_⟩
   · intro j hj; rw [ht2]; exact hmono j hj
   · intro s' h1 h2 h3; rw [ht2]; exact hkn s' h1 h2 h3
+  · intro j
+    have := sectionRead_off_cases hsr j
+    rw [ht2, ← hpos2]
+    exact this
 
 /-- a failing data call latches the error state -/
 theorem data_fail (msg : Bytes) (r1 r2 : Reader) (m : Marker) (t : RType) (e : Err) :
@@ -293,16 +417,18 @@ theorem QIdx.cur {msg : Bytes} {L : Lay} {r : Reader} (h : QIdx msg L r) :
 /-- **question step.** With a question left, any of the four question calls either fails (and latches)
     or reads the question of the pass and stands behind it; after the last question the Answer section
     (and the empty sections behind it) is known. -/
-theorem question_step (msg : Bytes) (L : Lay) (hL : L.WF) (hP : PassAll msg L) (r : Reader) (hQ : QIdx msg L r)
-    (hlt : r.tr.qd.read < L.qd) (k : QKind) :
+theorem question_step (msg : Bytes) (L : Lay) (hL : L.WF) {nq nr : Nat} (hP : PassUpto msg L nq nr) (r : Reader)
+    (hQ : QIdx msg L r) (hltq : r.tr.qd.read < nq) (k : QKind) :
     (∃ q r1, r.question msg k = (.ok q, r1) ∧ QIdx msg L r1 ∧ r1.tr.qd.read = r.tr.qd.read + 1 ∧
         r1.tr.sec = r.tr.sec ∧ (∀ j, r.tr.off j ≠ 0 → r1.tr.off j ≠ 0) ∧
         (r.tr.qd.read + 1 = L.qd → r1.tr.off 0 ≠ 0 ∧ (L.tot 0 = 0 → r1.tr.off 1 ≠ 0) ∧
           (L.tot 0 = 0 → L.tot 1 = 0 → r1.tr.off 2 ≠ 0)) ∧
-        (r.tr.qd.read + 1 < L.qd → r1.tr.off = r.tr.off)) ∨
+        (r.tr.qd.read + 1 < L.qd → r1.tr.off = r.tr.off) ∧
+        (∀ j, r1.tr.off j = r.tr.off j ∨ r1.tr.off j = asU16 (L.qEnd (r.tr.qd.read + 1)))) ∨
     (∃ e r1, r.question msg k = (.err e, r1) ∧ r1.done = true) ∨
     (∃ p r1, r.question msg k = (.panic p, r1)) := by
   have hok := question_ok (msg := msg) hQ.inv k
+  have hlt : r.tr.qd.read < L.qd := Nat.lt_of_lt_of_le hltq hP.nq_le
   cases hres : r.question msg k with
   | mk res r1 =>
     cases res with
@@ -310,7 +436,7 @@ theorem question_step (msg : Bytes) (L : Lay) (hL : L.WF) (hP : PassAll msg L) (
       left
       refine ⟨q, r1, rfl, ?_⟩
       have hr1 : RInv msg r1 := by rw [hres] at hok; exact hok.2
-      have hskip := hP.ques r.tr.qd.read hlt
+      have hskip := hP.ques r.tr.qd.read hltq
       rw [← hQ.cur] at hskip
       -- unfold the call down to `afterQ (readQ …)`
       have hleft : r.tr.questionsLeft = .ok (L.qd - r.tr.qd.read) := by
@@ -341,7 +467,7 @@ theorem question_step (msg : Bytes) (L : Lay) (hL : L.WF) (hP : PassAll msg L) (
               subst hqs
               subst hr1eq
               refine ⟨⟨hr1, rfl, hQ.live, hT, by rw [idx_congr hsec]; exact hQ.idx0, ?_, by simp only; omega⟩, hrd, hsec,
-                fun j hj => questionRead_mono _ _ _ hqr j hj, hkn, ?_⟩
+                fun j hj => questionRead_mono _ _ _ hqr j hj, hkn, ?_, fun j => questionRead_off_cases hqr j⟩
               · simp only [Cur.withPos, hrd]
               · intro hnl
                 have hq65 := hL.qle
@@ -364,7 +490,7 @@ theorem question_step (msg : Bytes) (L : Lay) (hL : L.WF) (hP : PassAll msg L) (
 
 /-! ### positions grow along the pass -/
 
-theorem PassAll.q_grows {msg : Bytes} {L : Lay} (hP : PassAll msg L) (j : Nat) (hj : j < L.qd) :
+theorem PassUpto.q_grows {msg : Bytes} {L : Lay} {nq nr : Nat} (hP : PassUpto msg L nq nr) (j : Nat) (hj : j < nq) :
     L.qEnd j + 5 ≤ L.qEnd (j + 1) := by
   obtain ⟨n, c1, hsk, hc'⟩ := skipQuestion_inv msg _ _ (hP.ques j hj)
   have := (skipName_advances msg _ c1 n hsk).1
@@ -373,7 +499,7 @@ theorem PassAll.q_grows {msg : Bytes} {L : Lay} (hP : PassAll msg L) (j : Nat) (
   omega
 
 /-- **record offsets grow along the pass**: every record occupies at least eleven octets -/
-theorem PassAll.r_grows {msg : Bytes} {L : Lay} (hP : PassAll msg L) (i : Nat) (hi : i < L.n) :
+theorem PassUpto.r_grows {msg : Bytes} {L : Lay} {nq nr : Nat} (hP : PassUpto msg L nq nr) (i : Nat) (hi : i < nr) :
     L.rOff i + 11 ≤ L.rOff (i + 1) := by
   obtain ⟨n, c1, hsk, _, hc'⟩ := skipRr_inv msg _ _ (hP.recs i hi)
   have := (skipName_advances msg _ c1 n hsk).1
@@ -381,7 +507,8 @@ theorem PassAll.r_grows {msg : Bytes} {L : Lay} (hP : PassAll msg L) (i : Nat) (
   simp only [Cur.withPos] at this hp
   omega
 
-theorem PassAll.q_ge {msg : Bytes} {L : Lay} (hP : PassAll msg L) : ∀ j, j ≤ L.qd → 12 + 5 * j ≤ L.qEnd j := by
+theorem PassUpto.q_ge {msg : Bytes} {L : Lay} {nq nr : Nat} (hP : PassUpto msg L nq nr) :
+    ∀ j, j ≤ nq → 12 + 5 * j ≤ L.qEnd j := by
   intro j
   induction j with
   | zero => intro _; rw [hP.q0]; omega
@@ -391,20 +518,66 @@ theorem PassAll.q_ge {msg : Bytes} {L : Lay} (hP : PassAll msg L) : ∀ j, j ≤
     have := hP.q_grows j (by omega)
     omega
 
-theorem PassAll.r_ge {msg : Bytes} {L : Lay} (hL : L.WF) (hP : PassAll msg L) :
-    ∀ i, i ≤ L.n → 12 + 5 * L.qd + 11 * i ≤ L.rOff i := by
+theorem PassUpto.r_ge {msg : Bytes} {L : Lay} {nq nr : Nat} (hL : L.WF) (hP : PassUpto msg L nq nr) (hnq : nq = L.qd) :
+    ∀ i, i ≤ nr → 12 + 5 * L.qd + 11 * i ≤ L.rOff i := by
   intro i
   induction i with
   | zero =>
     intro _
     rw [hL.q0]
-    have := hP.q_ge L.qd (Nat.le_refl _)
+    have := hP.q_ge L.qd (by omega)
     omega
   | succ i ih =>
     intro hi
     have := ih (by omega)
     have := hP.r_grows i (by omega)
     omega
+
+/-- offsets of records behind the last skippable one are padding: `1` is no record offset.  (Vacuous
+    when the whole message can be skipped.) -/
+def Pad (L : Lay) (nr : Nat) : Prop := ∀ i, nr < i → i ≤ L.n → L.rOff i = 1
+
+/-- only sections the pass can reach have a known offset -/
+def Reached (L : Lay) (nr : Nat) (t : Tracker) : Prop := ∀ s, s < 3 → t.off s ≠ 0 → L.start s ≤ nr
+
+/-- a tracker that learned offsets only at record positions of the skippable prefix knows only
+    reachable sections -/
+theorem reached_learn {msg : Bytes} {L : Lay} {nq nr : Nat} (hL : L.WF) (hP : PassUpto msg L nq nr) (hnq : nq = L.qd)
+    (hpad : Pad L nr) {t t' : Tracker} (hT' : TInv L t') (hR : Reached L nr t)
+    (hc : ∀ j, t'.off j = t.off j ∨ ∃ i, i ≤ nr ∧ t'.off j = asU16 (L.rOff i)) : Reached L nr t' := by
+  intro s hs hne
+  rcases hc s with h | ⟨i, hi, h⟩
+  · rw [h] at hne; exact hR s hs hne
+  · have hri := hL.rpos i
+    rw [asU16_id hri.2] at h
+    have hge := PassUpto.r_ge hL hP hnq i hi
+    have hsec : t'.off s = L.secOff s := by
+      have : s = 0 ∨ s = 1 ∨ s = 2 := by omega
+      rcases this with rfl | rfl | rfl
+      · exact hT'.o0 hne
+      · exact hT'.o1 hne
+      · exact hT'.o2 hne
+    by_cases hle : L.start s ≤ nr
+    · exact hle
+    · have hsn : L.start s ≤ L.n := by
+        have : s = 0 ∨ s = 1 ∨ s = 2 := by omega
+        rcases this with rfl | rfl | rfl <;> simp [Lay.start, Lay.n] <;> omega
+      have hp := hpad (L.start s) (by omega) hsn
+      unfold Lay.secOff at hsec
+      rw [hp, h] at hsec
+      omega
+
+theorem Reached.congr {L : Lay} {nr : Nat} {t t' : Tracker} (h : Reached L nr t) (ho : t'.off = t.off) : Reached L nr t' := by
+  intro s hs hne; rw [ho] at hne; exact h s hs hne
+
+/-- learning at the start of record `i` of the skippable prefix keeps `Reached` -/
+theorem reached_at {msg : Bytes} {L : Lay} {nq nr : Nat} (hL : L.WF) (hP : PassUpto msg L nq nr) (hnq : nq = L.qd)
+    (hpad : Pad L nr) {t t' : Tracker} (hT' : TInv L t') (hR : Reached L nr t) (i : Nat) (hi : i ≤ nr)
+    (hc : ∀ j, t'.off j = t.off j ∨ t'.off j = asU16 (L.rOff i)) : Reached L nr t' :=
+  reached_learn hL hP hnq hpad hT' hR (fun j => by
+    rcases hc j with h | h
+    · exact Or.inl h
+    · exact Or.inr ⟨i, hi, h⟩)
 
 /-! ### the documented seek criterion as a tracker invariant with a ghost high-water mark -/
 
@@ -463,22 +636,24 @@ theorem questionsLeft_eq {msg : Bytes} {L : Lay} {r : Reader} (hQ : QIdx msg L r
 
 /-- `skip_questions_impl` from inside the question section of a skippable message always succeeds and
     stands behind the last question -/
-theorem skipQuestionsImpl_pass (msg : Bytes) (L : Lay) (hL : L.WF) (hP : PassAll msg L) :
+theorem skipQuestionsImpl_pass (msg : Bytes) (L : Lay) (hL : L.WF) {nq nr : Nat} (hP : PassUpto msg L nq nr)
+    (hnq : nq = L.qd) (hpad : Pad L nr) :
     ∀ (fuel : Nat) (r : Reader) (maxc : Nat), QIdx msg L r → L.qd - r.tr.qd.read < fuel → DocT L r.tr maxc →
+      Reached L nr r.tr →
       ∃ r', r.skipQuestionsImpl msg fuel = (.ok (), r') ∧ QIdx msg L r' ∧ r'.tr.qd.read = L.qd ∧
         (∀ j, r.tr.off j ≠ 0 → r'.tr.off j ≠ 0) ∧
-        DocT L r'.tr (if r.tr.qd.read < L.qd then max maxc L.qd else maxc) := by
+        DocT L r'.tr (if r.tr.qd.read < L.qd then max maxc L.qd else maxc) ∧ Reached L nr r'.tr := by
   intro fuel
   induction fuel with
-  | zero => intro r maxc _ hf _; omega
+  | zero => intro r maxc _ hf _ _; omega
   | succ fuel ih =>
-    intro r maxc hQ hf hD
+    intro r maxc hQ hf hD hR
     rw [Reader.skipQuestionsImpl]
     simp only [questionsLeft_eq hQ]
     by_cases hlt : r.tr.qd.read < L.qd
     · have hpos : L.qd - r.tr.qd.read > 0 := by omega
       simp only [hpos, if_true]
-      have hskip := hP.ques r.tr.qd.read hlt
+      have hskip := hP.ques r.tr.qd.read (by omega)
       rw [← hQ.cur] at hskip
       simp only [Reader.onCur, hskip]
       obtain ⟨t', hqr, hT, hsec, hrd, hkn⟩ := questionRead_spec L hL r.tr hQ.tinv hlt
@@ -488,8 +663,20 @@ theorem skipQuestionsImpl_pass (msg : Bytes) (L : Lay) (hL : L.WF) (hP : PassAll
         refine ⟨⟨⟨Nat.le_refl _, by intro o ho; cases ho⟩, rfl⟩, rfl, hQ.live, hT, by rw [idx_congr hsec]; exact hQ.idx0,
           by simp only [Cur.withPos, hrd], by simp only; omega⟩
       have hD1 := DocT.question hD hlt hmono hkn
-      obtain ⟨r', he, hQ', hrd', hm', hD'⟩ := ih _ (max maxc (r.tr.qd.read + 1)) hQ1 (by simp only; omega) hD1
-      refine ⟨r', he, hQ', hrd', fun j hj => hm' j (hmono j hj), ?_⟩
+      have hR1 : Reached L nr t' := by
+        by_cases hlast : r.tr.qd.read + 1 = L.qd
+        · refine reached_at hL hP hnq hpad hT hR 0 (Nat.zero_le _) (fun j => ?_)
+          have := questionRead_off_cases hqr j
+          rw [hlast, ← hL.q0] at this
+          exact this
+        · have hq65 := hL.qle
+          have hqe := questionRead_eq r.tr (L.qEnd (r.tr.qd.read + 1)) (by omega)
+          have hne : ¬ r.tr.qd.total = r.tr.qd.read + 1 := by rw [hQ.tinv.tq]; omega
+          rw [hqr] at hqe
+          simp only [hne, if_false, Res.ok.injEq] at hqe
+          exact hR.congr (by rw [hqe]; rfl)
+      obtain ⟨r', he, hQ', hrd', hm', hD', hR'⟩ := ih _ (max maxc (r.tr.qd.read + 1)) hQ1 (by simp only; omega) hD1 hR1
+      refine ⟨r', he, hQ', hrd', fun j hj => hm' j (hmono j hj), ?_, hR'⟩
       simp only [hlt, if_true]
       simp only [hrd] at hD'
       split at hD'
@@ -499,7 +686,7 @@ theorem skipQuestionsImpl_pass (msg : Bytes) (L : Lay) (hL : L.WF) (hP : PassAll
     · have hz : ¬ (L.qd - r.tr.qd.read > 0) := by omega
       simp only [hz, if_false]
       have := hQ.le
-      refine ⟨r, rfl, hQ, by omega, fun j hj => hj, ?_⟩
+      refine ⟨r, rfl, hQ, by omega, fun j hj => hj, ?_, hR⟩
       simp only [hlt, if_false]
       exact hD
 
@@ -550,18 +737,19 @@ theorem skipRr_inv2 (msg : Bytes) (c c' : Cur) (h : skipRr msg c = (.ok (), c'))
   | ub => simp [hs] at h
 
 /-- on a skippable record, `marker_impl` + `skip_record_data_impl` succeed and stand behind it -/
-theorem marker_skip_pass (msg : Bytes) (L : Lay) (hL : L.WF) (hP : PassAll msg L) (r : Reader) (hA : AtIndex msg L r)
-    (hi : idx r.tr < L.n) :
+theorem marker_skip_pass (msg : Bytes) (L : Lay) (hL : L.WF) {nq nr : Nat} (hP : PassUpto msg L nq nr) (hnq : nq = L.qd)
+    (hpad : Pad L nr) (r : Reader) (hA : AtIndex msg L r) (hi : idx r.tr < nr) (hR : Reached L nr r.tr) :
     ∃ m r1 r2, r.headerImpl msg .marker = (.ok (.none, m), r1) ∧ r1.skipDataImpl m = (.ok (), r2) ∧
       SecOf L r.tr m.section_ ∧ AtIndex msg L r2 ∧ idx r2.tr = idx r.tr + 1 ∧ r2.tr.qd = r.tr.qd ∧
       (∀ j, r.tr.off j ≠ 0 → r2.tr.off j ≠ 0) ∧
-      (∀ s', m.section_ < s' → s' < 3 → L.start s' = idx r.tr + 1 → r2.tr.off s' ≠ 0) := by
+      (∀ s', m.section_ < s' → s' < 3 → L.start s' = idx r.tr + 1 → r2.tr.off s' ≠ 0) ∧ Reached L nr r2.tr := by
   have hcur := hA.cur
+  have hiL : idx r.tr < L.n := Nat.lt_of_lt_of_le hi hP.nr_le
   have hrec := hP.recs (idx r.tr) hi
   obtain ⟨n, c1, hsk, hle, hskip⟩ := skipRr_inv2 msg _ _ hrec
   obtain ⟨hadv, hlim1, horig1⟩ := skipName_advances msg _ c1 n hsk
   simp only [Cur.withPos] at hlim1 horig1
-  obtain ⟨s, t', hns, hsecof, hsame, hqd, hk, hT1, hmono⟩ := nextSection_some L hL r.tr hA.tinv hi
+  obtain ⟨s, t', hns, hsecof, hsame, hqd, hk, hT1, hmono⟩ := nextSection_some L hL r.tr hA.tinv hiL
   -- the four fixed reads
   have hc1 : c1 = { lim := msg.size, pos := c1.pos, orig := none } := by
     cases c1; simp only at hlim1 horig1; subst hlim1; subst horig1; rfl
@@ -587,11 +775,16 @@ theorem marker_skip_pass (msg : Bytes) (L : Lay) (hL : L.WF) (hP : PassAll msg L
             rdlen := Cur.beNat msg (c1.pos + 8) 2, section_ := s },
           { r with cur := { lim := msg.size, pos := c1.pos + 10, orig := none }, tr := t' },
           { r with cur := Cur.withPos msg (L.rOff (idx r.tr + 1)), tr := t2 }, ?_, ?_, hsecof, ?_, by simp only; rw [hi2, hidx1],
-          by simp only; rw [hq2, hqd], fun j hj => hmono2 j (hmono j hj), hkn⟩
+          by simp only; rw [hq2, hqd], fun j hj => hmono2 j (hmono j hj), hkn, ?_⟩
   · simp only [Reader.headerImpl, Reader.calcSection, hpos, hns, Reader.onCur, hskM, Reader.rawMarker, bind, CurM.bind,
       h1, h2, h3, h4, pure, CurM.pure, Nat.add_assoc]
   · simp only [Reader.skipDataImpl, Reader.onCur, hskipM, Reader.finishData, Cur.withPos, hsr]
   · exact ⟨⟨⟨Nat.le_refl _, by intro o ho; cases ho⟩, rfl⟩, rfl, by simp only [Cur.withPos]; rw [hi2, hidx1], hT2, hA.live⟩
+  · have hR1 : Reached L nr t' := reached_at hL hP hnq hpad hT1 hR (idx r.tr) (by omega) (fun j => by
+      have := nextSection_off_cases r.tr (L.rOff (idx r.tr)) j
+      rw [hns] at this
+      exact this)
+    exact reached_at hL hP hnq hpad hT2 hR1 (idx r.tr + 1) (by omega) (fun j => sectionRead_off_cases hsr j)
 
 /-- under the coupling invariant the three counters are determined by the record index -/
 theorem reads_of_idx {L : Lay} {t : Tracker} (h : TInv L t) :
@@ -634,17 +827,20 @@ theorem sec_read_of_idx {L : Lay} {t : Tracker} (h : TInv L t) (s : Nat) (hs : s
 
 /-- `skip_section_impl(s)` from a live reader standing inside (or right in front of) section `s` of a
     skippable message always succeeds and stands behind the last record of that section -/
-theorem skipSectionImpl_pass (msg : Bytes) (L : Lay) (hL : L.WF) (hP : PassAll msg L) (s : Nat) (hs : s < 3) :
+theorem skipSectionImpl_pass (msg : Bytes) (L : Lay) (hL : L.WF) {nq nr : Nat} (hP : PassUpto msg L nq nr) (hnq : nq = L.qd)
+    (hpad : Pad L nr) (s : Nat) (hs : s < 3) (hend : L.start s + L.tot s ≤ nr) :
     ∀ (fuel : Nat) (r : Reader) (maxc : Nat), AtIndex msg L r → L.start s ≤ idx r.tr →
       idx r.tr ≤ L.start s + L.tot s → L.start s + L.tot s - idx r.tr < fuel → r.tr.qd.read = L.qd → DocT L r.tr maxc →
+      Reached L nr r.tr →
       ∃ r', r.skipSectionImpl msg s fuel = (.ok (), r') ∧ AtIndex msg L r' ∧ idx r'.tr = L.start s + L.tot s ∧
         r'.tr.qd = r.tr.qd ∧ (∀ j, r.tr.off j ≠ 0 → r'.tr.off j ≠ 0) ∧
-        DocT L r'.tr (if idx r.tr < L.start s + L.tot s then max maxc (L.qd + (L.start s + L.tot s)) else maxc) := by
+        DocT L r'.tr (if idx r.tr < L.start s + L.tot s then max maxc (L.qd + (L.start s + L.tot s)) else maxc) ∧
+        Reached L nr r'.tr := by
   intro fuel
   induction fuel with
-  | zero => intro r maxc _ _ _ hf _ _; omega
+  | zero => intro r maxc _ _ _ hf _ _ _; omega
   | succ fuel ih =>
-    intro r maxc hA hlo hhi hf hq hD
+    intro r maxc hA hlo hhi hf hq hD hR
     rw [Reader.skipSectionImpl]
     have hrd := sec_read_of_idx hA.tinv s hs hlo hhi
     simp only [recordsLeftIn_eq hA.tinv s hs, hrd]
@@ -654,7 +850,7 @@ theorem skipSectionImpl_pass (msg : Bytes) (L : Lay) (hL : L.WF) (hP : PassAll m
     by_cases hlt : idx r.tr < L.start s + L.tot s
     · have hpos : L.tot s - (idx r.tr - L.start s) > 0 := by omega
       simp only [hpos, if_true]
-      obtain ⟨m, r1, r2, hh, hsd, hsec, hA2, hi2, hq2, hmono, hkn⟩ := marker_skip_pass msg L hL hP r hA (by omega)
+      obtain ⟨m, r1, r2, hh, hsd, hsec, hA2, hi2, hq2, hmono, hkn, hR2⟩ := marker_skip_pass msg L hL hP hnq hpad r hA (by omega) hR
       simp only [hh, hsd]
       have hk1 : r.tr.off m.section_ ≠ 0 ∨ True := Or.inr trivial
       -- DocT after this record
@@ -684,9 +880,9 @@ theorem skipSectionImpl_pass (msg : Bytes) (L : Lay) (hL : L.WF) (hP : PassAll m
           · have hlt' : m.section_ < s' := by omega
             have := Lay.start_mono L hlt' hs3
             exact hkn s' hlt' hs3 (by omega)
-      obtain ⟨r', he, hA', hi', hq', hm', hD'⟩ := ih r2 (max maxc (L.qd + idx r.tr + 1)) hA2 (by omega) (by omega)
-        (by omega) (by rw [hq2]; exact hq) hD2
-      refine ⟨r', he, hA', hi', by rw [hq', hq2], fun j hj => hm' j (hmono j hj), ?_⟩
+      obtain ⟨r', he, hA', hi', hq', hm', hD', hR'⟩ := ih r2 (max maxc (L.qd + idx r.tr + 1)) hA2 (by omega) (by omega)
+        (by omega) (by rw [hq2]; exact hq) hD2 hR2
+      refine ⟨r', he, hA', hi', by rw [hq', hq2], fun j hj => hm' j (hmono j hj), ?_, hR'⟩
       simp only [hlt, if_true]
       split at hD'
       · exact DocT.le hD' (by omega)
@@ -694,7 +890,7 @@ theorem skipSectionImpl_pass (msg : Bytes) (L : Lay) (hL : L.WF) (hP : PassAll m
         exact DocT.le hD' (by omega)
     · have hz : ¬ (L.tot s - (idx r.tr - L.start s) > 0) := by omega
       simp only [hz, if_false]
-      refine ⟨r, rfl, hA, by omega, rfl, fun j hj => hj, ?_⟩
+      refine ⟨r, rfl, hA, by omega, rfl, fun j hj => hj, ?_, hR⟩
       simp only [hlt, if_false]
       exact hD
 
@@ -711,14 +907,15 @@ theorem QIdx.toAtIndex {msg : Bytes} {L : Lay} (hL : L.WF) {r : Reader} (hQ : QI
 /-- **seek, first scenario.** From inside the question section of a skippable message (in particular:
     straight after the header) `seek_impl(s)` skips forward and stands at the first record of section
     `s`; everything in front of it counts as read. -/
-theorem seekImpl_pass (msg : Bytes) (L : Lay) (hL : L.WF) (hP : PassAll msg L) (r : Reader) (maxc : Nat)
-    (hQ : QIdx msg L r) (s : Nat) (hs : s < 3) (hD : DocT L r.tr maxc) (hprog : r.tr.qd.read ≤ maxc) :
+theorem seekImpl_pass (msg : Bytes) (L : Lay) (hL : L.WF) {nq nr : Nat} (hP : PassUpto msg L nq nr) (hnq : nq = L.qd)
+    (hpad : Pad L nr) (r : Reader) (maxc : Nat) (hQ : QIdx msg L r) (s : Nat) (hs : s < 3) (hsnr : L.start s ≤ nr)
+    (hD : DocT L r.tr maxc) (hprog : r.tr.qd.read ≤ maxc) (hR : Reached L nr r.tr) :
     ∃ r', r.seekImpl msg s = (.ok (), r') ∧ AtIndex msg L r' ∧ idx r'.tr = L.start s ∧ r'.tr.qd.read = L.qd ∧
-      (∀ j, r.tr.off j ≠ 0 → r'.tr.off j ≠ 0) ∧ DocT L r'.tr (max maxc (L.qd + L.start s)) := by
+      (∀ j, r.tr.off j ≠ 0 → r'.tr.off j ≠ 0) ∧ DocT L r'.tr (max maxc (L.qd + L.start s)) ∧ Reached L nr r'.tr := by
   have hqf : L.qd - r.tr.qd.read < r.qFuel := by
     have := hQ.tinv.tq
     simp only [Reader.qFuel, this]; omega
-  obtain ⟨r1, h1, hQ1, hrd1, hm1, hD1⟩ := skipQuestionsImpl_pass msg L hL hP r.qFuel r maxc hQ hqf hD
+  obtain ⟨r1, h1, hQ1, hrd1, hm1, hD1, hR1⟩ := skipQuestionsImpl_pass msg L hL hP hnq hpad r.qFuel r maxc hQ hqf hD hR
   have hA1 := hQ1.toAtIndex hL hrd1
   have hi1 : idx r1.tr = 0 := hQ1.idx0
   -- DocT after the questions, uniformly
@@ -733,12 +930,15 @@ theorem seekImpl_pass (msg : Bytes) (L : Lay) (hL : L.WF) (hP : PassAll msg L) (
   by_cases hs0 : s = 0
   · subst hs0
     simp only [if_true]
-    exact ⟨r1, rfl, hA1, hi1, hrd1, hm1, by simpa using hD1'⟩
+    exact ⟨r1, rfl, hA1, hi1, hrd1, hm1, by simpa using hD1', hR1⟩
   · simp only [hs0, if_false]
     have hf0 : L.start 0 + L.tot 0 - idx r1.tr < r1.sFuel 0 := by
       rw [sFuel_eq hA1.tinv, hi1]; simp [Lay.start, Lay.n]; omega
-    obtain ⟨r2, h2, hA2, hi2, hq2, hm2, hD2⟩ := skipSectionImpl_pass msg L hL hP 0 (by omega) (r1.sFuel 0) r1 (max maxc L.qd)
-      hA1 (by rw [hi1]; simp) (by rw [hi1]; simp) hf0 hrd1 hD1'
+    have hend0 : L.start 0 + L.tot 0 ≤ nr := by
+      have : s = 1 ∨ s = 2 := by omega
+      rcases this with rfl | rfl <;> simp only [Lay.start_zero, Lay.start_one, Lay.start_two] at hsnr ⊢ <;> omega
+    obtain ⟨r2, h2, hA2, hi2, hq2, hm2, hD2, hR2⟩ := skipSectionImpl_pass msg L hL hP hnq hpad 0 (by omega) hend0 (r1.sFuel 0) r1 (max maxc L.qd)
+      hA1 (by rw [hi1]; simp) (by rw [hi1]; simp) hf0 hrd1 hD1' hR1
     simp only [Lay.start_zero, Nat.zero_add] at hi2 hD2
     simp only [h2]
     have hrd2 : r2.tr.qd.read = L.qd := by rw [hq2]; exact hrd1
@@ -753,16 +953,18 @@ theorem seekImpl_pass (msg : Bytes) (L : Lay) (hL : L.WF) (hP : PassAll msg L) (
     by_cases hs1 : s = 1
     · subst hs1
       simp only [if_true]
-      exact ⟨r2, rfl, hA2, by rw [hi2]; rfl, hrd2, fun j hj => hm2 j (hm1 j hj), by simpa using hD2'⟩
+      exact ⟨r2, rfl, hA2, by rw [hi2]; rfl, hrd2, fun j hj => hm2 j (hm1 j hj), by simpa using hD2', hR2⟩
     · simp only [hs1, if_false]
       have hs2 : s = 2 := by omega
       subst hs2
       have hf1 : L.start 1 + L.tot 1 - idx r2.tr < r2.sFuel 1 := by
         rw [sFuel_eq hA2.tinv, hi2]; simp [Lay.start, Lay.n]; omega
-      obtain ⟨r3, h3, hA3, hi3, hq3, hm3, hD3⟩ := skipSectionImpl_pass msg L hL hP 1 (by omega) (r2.sFuel 1) r2
-        (max maxc (L.qd + L.tot 0)) hA2 (by rw [hi2]; simp) (by rw [hi2]; simp) hf1 hrd2 hD2'
+      have hend1 : L.start 1 + L.tot 1 ≤ nr := by
+        simp only [Lay.start_one, Lay.start_two] at hsnr ⊢; omega
+      obtain ⟨r3, h3, hA3, hi3, hq3, hm3, hD3, hR3⟩ := skipSectionImpl_pass msg L hL hP hnq hpad 1 (by omega) hend1 (r2.sFuel 1) r2
+        (max maxc (L.qd + L.tot 0)) hA2 (by rw [hi2]; simp) (by rw [hi2]; simp) hf1 hrd2 hD2' hR2
       simp only [Lay.start_one] at hi3 hD3
-      refine ⟨r3, h3, hA3, by rw [hi3]; rfl, by rw [hq3]; exact hrd2, fun j hj => hm3 j (hm2 j (hm1 j hj)), ?_⟩
+      refine ⟨r3, h3, hA3, by rw [hi3]; rfl, by rw [hq3]; exact hrd2, fun j hj => hm3 j (hm2 j (hm1 j hj)), ?_, hR3⟩
       rw [hi2] at hD3
       simp only [Lay.start_two]
       by_cases hc : L.tot 0 < L.tot 0 + L.tot 1
@@ -772,19 +974,428 @@ theorem seekImpl_pass (msg : Bytes) (L : Lay) (hL : L.WF) (hP : PassAll msg L) (
         have : L.tot 1 = 0 := by omega
         rw [this]; exact DocT.le hD3 (by omega)
 
+
+/-! ### the item behind the skippable prefix -/
+
+/-- a successful question read of either kind ends where `skip_question` ends -/
+theorem readQ_skip {msg : Bytes} {r rq : Reader} {owned : Bool} {q : QOut} (h : r.readQ msg owned = (.ok q, rq)) :
+    skipQuestion msg r.cur = (.ok (), rq.cur) := by
+  unfold Reader.readQ Reader.onCur at h
+  cases owned with
+  | true =>
+    simp only [if_true] at h
+    cases hq : readQuestion msg r.cur with
+    | mk res c2 =>
+      rw [hq] at h
+      cases res with
+      | ok qq =>
+        simp only [Prod.mk.injEq, Res.ok.injEq] at h
+        rw [← h.2]
+        exact C08.skipQuestion_of_read hq
+      | err e => simp at h
+      | panic p => simp at h
+      | ub => simp at h
+  | false =>
+    simp only [Bool.false_eq_true, if_false] at h
+    cases hq : readQuestionRef msg r.cur with
+    | mk res c2 =>
+      rw [hq] at h
+      cases res with
+      | ok qq =>
+        simp only [Prod.mk.injEq, Res.ok.injEq] at h
+        rw [← h.2]
+        exact C08.skipQuestion_of_readRef hq
+      | err e => simp at h
+      | panic p => simp at h
+      | ub => simp at h
+
+/-- **the question that cannot be skipped cannot be read**: every question call on it fails (and
+    latches) -/
+theorem question_fail (msg : Bytes) (L : Lay) (r : Reader) (hQ : QIdx msg L r)
+    (hfail : ∃ e c, skipQuestion msg (Cur.withPos msg (L.qEnd r.tr.qd.read)) = (.err e, c)) (k : QKind) :
+    (∃ e r1, r.question msg k = (.err e, r1) ∧ r1.done = true) ∨ (∃ p r1, r.question msg k = (.panic p, r1)) := by
+  have hok := question_ok (msg := msg) hQ.inv k
+  obtain ⟨e0, c0, hf⟩ := hfail
+  rw [← hQ.cur] at hf
+  cases hres : r.question msg k with
+  | mk res r1 =>
+    cases res with
+    | ok q =>
+      exfalso
+      unfold Reader.question at hres
+      simp only [hQ.live, Bool.false_eq_true, if_false] at hres
+      split at hres
+      · simp at hres
+      · simp at hres
+      · simp at hres
+      · try simp only at hres
+        split at hres
+        · simp at hres
+        · split at hres
+          · simp at hres
+          · generalize hrq : Reader.readQ msg (k == QKind.question || k == QKind.theQuestion) r = x at hres
+            obtain ⟨resq, rq⟩ := x
+            cases resq with
+            | ok qq =>
+              have := readQ_skip hrq
+              rw [hf] at this
+              simp at this
+            | err e => simp [Reader.afterQ] at hres
+            | panic p => simp [Reader.afterQ] at hres
+            | ub => simp [Reader.afterQ] at hres
+    | err e => left; exact ⟨e, r1, rfl, question_error_latches msg r r1 k e hres⟩
+    | panic p => right; exact ⟨p, r1, rfl⟩
+    | ub => rw [hres] at hok; exact absurd hok.1 (by simp [Res.noUB])
+
+/-- `skip_questions_impl` running into the question that cannot be skipped fails -/
+theorem skipQuestionsImpl_fail (msg : Bytes) (L : Lay) (hL : L.WF) {nq nr : Nat} (hP : PassUpto msg L nq nr)
+    (hnq : nq < L.qd) (hfail : ∃ e c, skipQuestion msg (Cur.withPos msg (L.qEnd nq)) = (.err e, c)) :
+    ∀ (fuel : Nat) (r : Reader), QIdx msg L r → r.tr.qd.read ≤ nq → nq - r.tr.qd.read < fuel →
+      ∃ e r', r.skipQuestionsImpl msg fuel = (.err e, r') := by
+  intro fuel
+  induction fuel with
+  | zero => intro r _ _ hf; omega
+  | succ fuel ih =>
+    intro r hQ hle hf
+    rw [Reader.skipQuestionsImpl]
+    simp only [questionsLeft_eq hQ]
+    have hpos : L.qd - r.tr.qd.read > 0 := by omega
+    simp only [hpos, if_true]
+    by_cases hlt : r.tr.qd.read < nq
+    · have hskip := hP.ques r.tr.qd.read hlt
+      rw [← hQ.cur] at hskip
+      simp only [Reader.onCur, hskip]
+      obtain ⟨t', hqr, hT, hsec, hrd, hkn⟩ := questionRead_spec L hL r.tr hQ.tinv (by omega)
+      simp only [Cur.withPos, hqr]
+      have hQ1 : QIdx msg L { r with cur := Cur.withPos msg (L.qEnd (r.tr.qd.read + 1)), tr := t' } := by
+        refine ⟨⟨⟨Nat.le_refl _, by intro o ho; cases ho⟩, rfl⟩, rfl, hQ.live, hT, by rw [idx_congr hsec]; exact hQ.idx0,
+          by simp only [Cur.withPos, hrd], by simp only; omega⟩
+      exact ih _ hQ1 (by simp only; omega) (by simp only; omega)
+    · have he : r.tr.qd.read = nq := by omega
+      obtain ⟨e0, c0, hf0⟩ := hfail
+      rw [← he, ← hQ.cur] at hf0
+      simp only [Reader.onCur, hf0]
+      exact ⟨_, _, rfl⟩
+
+theorem skip_at' (lim pos n : Nat) (orig : Option Nat) (h : pos + n ≤ lim) :
+    CurM.skip n { lim := lim, pos := pos, orig := orig } = (.ok (), { lim := lim, pos := pos + n, orig := orig }) := by
+  have : Cur.len { lim := lim, pos := pos, orig := orig } ≥ n := by simp only [Cur.len]; omega
+  simp [CurM.skip, CurM.lift0, Cur.skip, this]
+
+/-- `skip_rr` once the owner name and the ten fixed bytes are there: only the final skip can fail -/
+theorem skipRr_of_parts {msg : Bytes} {c c1 : Cur} {n : Nat} (hs : skipName msg c = .ok (n, c1))
+    (hfit : c1.pos + 10 ≤ c1.lim) (hlim : c1.lim ≤ msg.size) :
+    skipRr msg c = CurM.skip (Cur.beNat msg (c1.pos + 8) 2) { c1 with pos := c1.pos + 10 } := by
+  obtain ⟨l, p, o⟩ := c1
+  simp only at hfit hlim
+  have h8 := skip_at' l p 8 o (by omega)
+  have h16 := C02.u16be_at msg l (p + 8) o (by omega) hlim
+  simp only [skipRr, bind, CurM.bind, CurM.skipName, CurM.lift, hs, h8, h16, Nat.add_assoc]
+
+/-- what a successful record-header call did, without assuming that the record can be skipped -/
+theorem headerImpl_parts (msg : Bytes) (r : Reader) (k : HKind) (hn : HName) (m : Marker) (r1 : Reader)
+    (h : r.headerImpl msg k = (.ok (hn, m), r1)) :
+    ∃ n c1 s, skipName msg r.cur = .ok (n, c1) ∧ r.tr.nextSection r.cur.pos = (some s, r1.tr) ∧ m.section_ = s ∧
+      m.offset = r.cur.pos ∧ m.typeOffset = c1.pos ∧ m.rdlen = Cur.beNat msg (c1.pos + 8) 2 ∧
+      r1.cur = { c1 with pos := c1.pos + 10 } ∧ r1.done = r.done ∧ c1.pos + 10 ≤ c1.lim := by
+  unfold Reader.headerImpl at h
+  simp only [Reader.calcSection] at h
+  cases hns : r.tr.nextSection r.cur.pos with
+  | mk so t' =>
+    cases so with
+    | none => simp [hns] at h
+    | some s =>
+      simp only [hns] at h
+      split at h
+      · rename_i hn' r2 hnm
+        obtain ⟨n, c1, hsk, hr2⟩ := headerName_resumes msg k { r with tr := t' } r2 hn' hnm
+        split at h
+        · rename_i m' r3 hraw
+          simp only [Prod.mk.injEq, Res.ok.injEq] at h
+          obtain ⟨⟨_, rfl⟩, rfl⟩ := h
+          obtain ⟨ho, hto, hsec, hrd, hr3⟩ := rawMarker_inv msg r2 r.cur.pos s m' r3 hraw
+          obtain ⟨c2, c3, c4, _, _, _, h4, _, _, _⟩ := C08.rawMarker_reads hraw
+          obtain ⟨e4, b4⟩ := C08.u16_inv' h4
+          subst hr2
+          simp only at hto hrd hr3 h4 e4 b4
+          refine ⟨n, c1, s, hsk, by rw [hr3], hsec, ho, hto, hrd, by rw [hr3], by rw [hr3], ?_⟩
+          have hp : r3.cur.pos = c1.pos + 10 := by rw [hr3]
+          have hl : r3.cur.lim = c1.lim := by rw [hr3]
+          have hp4 : r3.cur.pos = c4.pos + 2 := by rw [e4]
+          have hl4 : r3.cur.lim = c4.lim := by rw [e4]
+          omega
+        · simp at h
+        · simp at h
+        · simp at h
+      · simp at h
+      · simp at h
+      · simp at h
+
+/-- a live reader that returned the header of the record that cannot be skipped: its announced data
+    does not fit into the message -/
+structure MidBad (msg : Bytes) (L : Lay) (r : Reader) (m : Marker) : Prop where
+  inv : RInv msg r
+  orig : r.cur.orig = none
+  live : r.done = false
+  tinv : TInv L r.tr
+  lt : idx r.tr < L.n
+  sec : SecOf L r.tr m.section_
+  known : r.tr.off m.section_ ≠ 0
+  pos : r.cur.pos = m.rdataPos
+  off : m.offset = L.rOff (idx r.tr)
+  gt : L.rOff (idx r.tr) + 11 ≤ m.rdataPos
+  fit : m.rdataPos ≤ r.cur.lim
+  bad : r.cur.lim < m.rdataPos + m.rdlen
+
+/-- **the record that cannot be skipped**: a header call on it fails (and latches) or returns a
+    marker whose data no call can consume -/
+theorem bad_header (msg : Bytes) (L : Lay) (hL : L.WF) (r : Reader) (hA : AtIndex msg L r) (hi : idx r.tr < L.n)
+    (hfail : ∃ e c, skipRr msg (Cur.withPos msg (L.rOff (idx r.tr))) = (.err e, c)) (k : HKind) :
+    (∃ hn m r1, r.recordHeader msg k = (.ok (hn, m), r1) ∧ MidBad msg L r1 m ∧ idx r1.tr = idx r.tr ∧
+        r1.tr.qd = r.tr.qd ∧ (∀ j, r.tr.off j ≠ 0 → r1.tr.off j ≠ 0) ∧
+        (∀ j, r1.tr.off j = r.tr.off j ∨ r1.tr.off j = asU16 (L.rOff (idx r.tr)))) ∨
+    (∃ e r1, r.recordHeader msg k = (.err e, r1) ∧ r1.done = true) ∨
+    (∃ p r1, r.recordHeader msg k = (.panic p, r1)) := by
+  have hok := recordHeader_ok (msg := msg) hA.inv k
+  cases hres : r.recordHeader msg k with
+  | mk res r1 =>
+    cases res with
+    | ok v =>
+      obtain ⟨hn, m⟩ := v
+      left
+      have hh' : r.headerImpl msg k = (.ok (hn, m), r1) := by
+        unfold Reader.recordHeader at hres
+        simp only [hA.live, Bool.false_eq_true, if_false] at hres
+        unfold markDone at hres
+        split at hres
+        · simp at hres
+        · exact hres
+      obtain ⟨n, c1, s, hsk, hns, hsec, hoff, hto, hrd, hc1, hdone1, hfit⟩ := headerImpl_parts msg r k hn m r1 hh'
+      obtain ⟨hadv, hl1, ho1⟩ := skipName_advances msg _ c1 n hsk
+      obtain ⟨s', t', hns', hsecof, hsame, hqd, hk, hT1, hmono⟩ := nextSection_some L hL r.tr hA.tinv hi
+      rw [← hA.pos, hns] at hns'
+      simp only [Prod.mk.injEq, Option.some.injEq] at hns'
+      obtain ⟨rfl, rfl⟩ := hns'
+      have hidx1 : idx r1.tr = idx r.tr := idx_congr hsame
+      have hr1 : RInv msg r1 := by rw [hres] at hok; exact hok.2
+      have hlim : r.cur.lim = msg.size := by rw [hA.cur]; rfl
+      -- the final skip of `skip_rr` is the one that fails
+      obtain ⟨e0, c0, hf⟩ := hfail
+      rw [← hA.cur, skipRr_of_parts hsk hfit (by rw [hl1, hlim]; exact Nat.le_refl _)] at hf
+      have hbad : c1.lim < c1.pos + 10 + Cur.beNat msg (c1.pos + 8) 2 := by
+        by_cases hge : c1.lim < c1.pos + 10 + Cur.beNat msg (c1.pos + 8) 2
+        · exact hge
+        · exfalso
+          have hlen : Cur.len { c1 with pos := c1.pos + 10 } ≥ Cur.beNat msg (c1.pos + 8) 2 := by
+            simp only [Cur.len]; omega
+          simp [CurM.skip, CurM.lift0, Cur.skip, hlen] at hf
+      have hrp : m.rdataPos = c1.pos + 10 := by simp only [Marker.rdataPos, hto, TYPE_TO_RDATA_OFFSET]
+      refine ⟨hn, m, r1, rfl, ?_, hidx1, hqd, hmono, ?_⟩
+      · refine ⟨hr1, by rw [hc1]; exact ho1.trans hA.orig, by rw [hdone1]; exact hA.live, hT1, by rw [hidx1]; exact hi, ?_,
+          by rw [hsec]; exact hk, by rw [hc1, hrp], by rw [hoff, hidx1, hA.pos], ?_, by rw [hc1, hrp]; exact hfit,
+          by rw [hc1, hrp, hrd]; exact hbad⟩
+        · rw [hsec]
+          exact ⟨hsecof.1, by intro j hj; rw [hsame]; exact hsecof.2.1 j hj, by rw [hsame]; exact hsecof.2.2⟩
+        · rw [hidx1, ← hA.pos, hrp]
+          omega
+      · intro j
+        have := nextSection_off_cases r.tr r.cur.pos j
+        rw [hns] at this
+        rw [← hA.pos]
+        exact this
+    | err e =>
+      right; left
+      exact ⟨e, r1, rfl, recordHeader_error_latches msg r r1 k e hres⟩
+    | panic p => right; right; exact ⟨p, r1, rfl⟩
+    | ub => rw [hres] at hok; exact absurd hok.1 (by simp [Res.noUB])
+
+/-- no data call can consume a record whose announced data does not fit -/
+theorem midBad_data {msg : Bytes} {L : Lay} {r r2 : Reader} {m : Marker} (hM : MidBad msg L r m)
+    (hd : DataCall msg r r2 m) : False := by
+  have hfit := hM.fit
+  have hbad := hM.bad
+  have hpos := hM.pos
+  have hskip : ∀ c2, CurM.skip m.rdlen r.cur = (.ok (), c2) → False := by
+    intro c2 hs
+    by_cases hlen : r.cur.len ≥ m.rdlen
+    · simp only [Cur.len] at hlen
+      omega
+    · simp [CurM.skip, CurM.lift0, Cur.skip, hlen] at hs
+  rcases hd with h | ⟨b, h⟩ | ⟨t, v, h⟩ | ⟨o, h⟩
+  · obtain ⟨_, _, c2, t2, hs, _, _⟩ := C08.skipData_inv h
+    exact hskip c2 hs
+  · obtain ⟨_, _, c2, t2, hs, _, _⟩ := C08.dataBytes_inv h
+    exact hskip c2 (C08.skip_of_slice hs)
+  · obtain ⟨_, _, c2, t2, hs, _, _⟩ := C08.data_inv h
+    exact hskip c2 (C08.skip_of_rdata hM.inv.1 hs)
+  · obtain ⟨_, _, _, c2, t2, hs, _, _⟩ := C08.optRecord_inv h
+    exact hskip c2 hs
+
+/-- the item right behind the skippable prefix cannot be skipped -/
+structure Fails (msg : Bytes) (L : Lay) (nq nr : Nat) : Prop where
+  q : nq < L.qd → ∃ e c, skipQuestion msg (Cur.withPos msg (L.qEnd nq)) = (.err e, c)
+  r : nq = L.qd → nr < L.n → ∃ e c, skipRr msg (Cur.withPos msg (L.rOff nr)) = (.err e, c)
+
+theorem headerImpl_of_recordHeader {msg : Bytes} {r : Reader} {k : HKind} (hlive : r.done = false) :
+    (∀ x r1, r.recordHeader msg k = (.ok x, r1) → r.headerImpl msg k = (.ok x, r1)) ∧
+    (∀ e r1, r.recordHeader msg k = (.err e, r1) → ∃ r1', r.headerImpl msg k = (.err e, r1')) ∧
+    (∀ p r1, r.recordHeader msg k = (.panic p, r1) → r.headerImpl msg k = (.panic p, r1)) := by
+  unfold Reader.recordHeader
+  simp only [hlive, Bool.false_eq_true, if_false]
+  unfold markDone
+  cases hi : r.headerImpl msg k with
+  | mk res r2 =>
+    cases res with
+    | ok v => simp
+    | err e =>
+      refine ⟨by intro x r1 h; simp at h, ?_, by intro p r1 h; simp at h⟩
+      intro e' r1 h
+      simp only [Prod.mk.injEq, Res.err.injEq] at h
+      exact ⟨r2, by rw [h.1]⟩
+    | panic p => simp
+    | ub => simp
+
+/-- `marker_impl` + `skip_record_data_impl` on the record that cannot be skipped: an error, or a panic -/
+theorem marker_skip_fail (msg : Bytes) (L : Lay) (hL : L.WF) (r : Reader) (hA : AtIndex msg L r) (hi : idx r.tr < L.n)
+    (hfail : ∃ e c, skipRr msg (Cur.withPos msg (L.rOff (idx r.tr))) = (.err e, c)) :
+    (∃ e r1, r.headerImpl msg .marker = (.err e, r1)) ∨ (∃ p r1, r.headerImpl msg .marker = (.panic p, r1)) ∨
+    (∃ x r1, r.headerImpl msg .marker = (.ok x, r1) ∧
+      ((∃ e r2, r1.skipDataImpl x.2 = (.err e, r2)) ∨ (∃ p r2, r1.skipDataImpl x.2 = (.panic p, r2)))) := by
+  obtain ⟨hok, herr, hpan⟩ := headerImpl_of_recordHeader (msg := msg) (k := .marker) hA.live
+  rcases bad_header msg L hL r hA hi hfail .marker with ⟨hn, m, r1, he, hM, _⟩ | ⟨e, r1, he, _⟩ | ⟨p, r1, he⟩
+  · right; right
+    refine ⟨(hn, m), r1, hok _ _ he, ?_⟩
+    have hs := skipDataImpl_ok (msg := msg) hM.inv m
+    cases hsd : r1.skipDataImpl m with
+    | mk res r2 =>
+      cases res with
+      | ok u =>
+        exfalso
+        have : r1.skipData m = (.ok (), r2) := by
+          unfold Reader.skipData Reader.assertAt
+          simp only [hM.pos, if_true, hM.live, Bool.false_eq_true, if_false, hsd]
+        exact midBad_data hM (Or.inl this)
+      | err e => left; exact ⟨e, r2, rfl⟩
+      | panic p => right; exact ⟨p, r2, rfl⟩
+      | ub => rw [hsd] at hs; exact absurd hs.1 (by simp [Res.noUB])
+  · left
+    obtain ⟨r1', h⟩ := herr _ _ he
+    exact ⟨e, r1', h⟩
+  · right; left
+    exact ⟨p, r1, hpan _ _ he⟩
+
+/-- `skip_section_impl(s)` running into the record that cannot be skipped does not succeed -/
+theorem skipSectionImpl_fail (msg : Bytes) (L : Lay) (hL : L.WF) {nq nr : Nat} (hP : PassUpto msg L nq nr) (hnq : nq = L.qd)
+    (hpad : Pad L nr) (s : Nat) (hs : s < 3) (hlo : L.start s ≤ nr) (hhi : nr < L.start s + L.tot s)
+    (hfail : ∃ e c, skipRr msg (Cur.withPos msg (L.rOff nr)) = (.err e, c)) :
+    ∀ (fuel : Nat) (r : Reader), AtIndex msg L r → L.start s ≤ idx r.tr → idx r.tr ≤ nr → nr - idx r.tr < fuel →
+      Reached L nr r.tr →
+      (∃ e r', r.skipSectionImpl msg s fuel = (.err e, r')) ∨ (∃ p r', r.skipSectionImpl msg s fuel = (.panic p, r')) := by
+  have hn : L.start s + L.tot s ≤ L.n := by
+    have : s = 0 ∨ s = 1 ∨ s = 2 := by omega
+    rcases this with rfl | rfl | rfl <;> simp [Lay.start, Lay.n] <;> omega
+  intro fuel
+  induction fuel with
+  | zero => intro r _ _ _ hf _; omega
+  | succ fuel ih =>
+    intro r hA hl hle hf hR
+    rw [Reader.skipSectionImpl]
+    have hrd := sec_read_of_idx hA.tinv s hs hl (by omega)
+    simp only [recordsLeftIn_eq hA.tinv s hs, hrd]
+    have hpos : L.tot s - (idx r.tr - L.start s) > 0 := by omega
+    simp only [hpos, if_true]
+    by_cases hlt : idx r.tr < nr
+    · obtain ⟨m, r1, r2, hh, hsd, _, hA2, hi2, _, _, _, hR2⟩ := marker_skip_pass msg L hL hP hnq hpad r hA hlt hR
+      simp only [hh, hsd]
+      exact ih r2 hA2 (by omega) (by omega) (by omega) hR2
+    · have he : idx r.tr = nr := by omega
+      rw [← he] at hfail
+      rcases marker_skip_fail msg L hL r hA (by omega) hfail with ⟨e, r1, h⟩ | ⟨p, r1, h⟩ | ⟨x, r1, h, h2⟩
+      · left; simp only [h]; exact ⟨e, r1, rfl⟩
+      · right; simp only [h]; exact ⟨p, r1, rfl⟩
+      · obtain ⟨hn', m⟩ := x
+        simp only [h]
+        rcases h2 with ⟨e, r2, h2⟩ | ⟨p, r2, h2⟩
+        · left; simp only [h2]; exact ⟨e, r2, rfl⟩
+        · right; simp only [h2]; exact ⟨p, r2, rfl⟩
+
+/-- `seek_impl(s)` from inside the question section when section `s` lies behind the item that cannot
+    be skipped: no success -/
+theorem seekImpl_fail (msg : Bytes) (L : Lay) (hL : L.WF) {nq nr : Nat} (hP : PassUpto msg L nq nr) (hpad : Pad L nr)
+    (hF : Fails msg L nq nr) (r : Reader) (maxc : Nat) (hQ : QIdx msg L r) (hle : r.tr.qd.read ≤ nq) (s : Nat) (hs : s < 3)
+    (hbehind : nq < L.qd ∨ nr < L.start s) (hD : DocT L r.tr maxc) (hprog : r.tr.qd.read ≤ maxc)
+    (hR : Reached L nr r.tr) :
+    (∃ e r', r.seekImpl msg s = (.err e, r')) ∨ (∃ p r', r.seekImpl msg s = (.panic p, r')) := by
+  have hqf : L.qd - r.tr.qd.read < r.qFuel := by
+    have := hQ.tinv.tq
+    simp only [Reader.qFuel, this]; omega
+  unfold Reader.seekImpl
+  by_cases hnq : nq < L.qd
+  · obtain ⟨e, r', h⟩ := skipQuestionsImpl_fail msg L hL hP hnq (hF.q hnq) r.qFuel r hQ hle (by omega)
+    left; simp only [h]; exact ⟨e, r', rfl⟩
+  · have hnq' : nq = L.qd := by have := hP.nq_le; omega
+    have hsn : nr < L.start s := by rcases hbehind with h | h; exact absurd h hnq; exact h
+    obtain ⟨r1, h1, hQ1, hrd1, hm1, hD1, hR1⟩ := skipQuestionsImpl_pass msg L hL hP hnq' hpad r.qFuel r maxc hQ hqf hD hR
+    have hA1 := hQ1.toAtIndex hL hrd1
+    have hi1 : idx r1.tr = 0 := hQ1.idx0
+    simp only [h1]
+    have hs0 : s ≠ 0 := by intro h; subst h; simp at hsn
+    simp only [hs0, if_false]
+    have hsle : L.start s ≤ L.n := by
+      have : s = 1 ∨ s = 2 := by omega
+      rcases this with rfl | rfl <;> simp [Lay.start, Lay.n] <;> omega
+    have hrfail := hF.r hnq' (by omega)
+    by_cases h0 : nr < L.tot 0
+    · -- the failing record is in the Answer section
+      rcases skipSectionImpl_fail msg L hL hP hnq' hpad 0 (by omega) (by simp) (by simpa using h0) hrfail (r1.sFuel 0) r1 hA1
+          (by simp) (by omega) (by rw [sFuel_eq hA1.tinv, hi1]; have := hP.nr_le; omega) hR1 with ⟨e, r', h⟩ | ⟨p, r', h⟩
+      · left; simp only [h]; exact ⟨e, r', rfl⟩
+      · right; simp only [h]; exact ⟨p, r', rfl⟩
+    · have hs2 : s = 2 := by
+        have : s = 1 ∨ s = 2 := by omega
+        rcases this with rfl | rfl
+        · simp only [Lay.start_one] at hsn; omega
+        · rfl
+      subst hs2
+      simp only [Lay.start_two] at hsn
+      have hD1' : DocT L r1.tr (max maxc L.qd) := by
+        split at hD1
+        · exact hD1
+        · have hl := hQ.le
+          have : r.tr.qd.read = L.qd := by omega
+          exact DocT.le hD1 (by omega)
+      obtain ⟨r2, h2, hA2, hi2, hq2, hm2, hD2, hR2⟩ := skipSectionImpl_pass msg L hL hP hnq' hpad 0 (by omega)
+        (by simp only [Lay.start_zero]; omega) (r1.sFuel 0) r1 (max maxc L.qd) hA1 (by rw [hi1]; simp) (by rw [hi1]; simp)
+        (by rw [sFuel_eq hA1.tinv, hi1]; simp [Lay.start, Lay.n]; omega) hrd1 hD1' hR1
+      simp only [Lay.start_zero, Nat.zero_add] at hi2
+      simp only [h2, show ¬ (2 = 1) from by decide, if_false]
+      rcases skipSectionImpl_fail msg L hL hP hnq' hpad 1 (by omega) (by simp only [Lay.start_one]; omega)
+          (by simp only [Lay.start_one]; omega) hrfail (r2.sFuel 1) r2 hA2 (by rw [hi2]; simp) (by omega)
+          (by rw [sFuel_eq hA2.tinv, hi2]; have := hP.nr_le; omega) hR2 with ⟨e, r', h⟩ | ⟨p, r', h⟩
+      · left; exact ⟨e, r', h⟩
+      · right; exact ⟨p, r', h⟩
+
 /-! ### situations, protocol conformance, and the history theorem -/
 
-/-- where a reader stands relative to the pass, with the marker of a header whose data is unread -/
-inductive Sit (msg : Bytes) (L : Lay) : Reader → Option Marker → Prop
-  | dead (r : Reader) : r.done = true → Sit msg L r none
-  | ques (r : Reader) : QIdx msg L r → r.tr.qd.read < L.qd → (∀ j, r.tr.off j = 0) → Sit msg L r none
-  | recs (r : Reader) : AtIndex msg L r → r.tr.qd.read = L.qd → Sit msg L r none
-  | mid (r : Reader) (m : Marker) : MidRec msg L r m → r.tr.qd.read = L.qd → Sit msg L r (some m)
+/-- where a reader stands relative to the pass, with the marker of a header whose data is unread.
+    `nq`, `nr`: how many questions / records the skip pass gets through (`L.qd`, `L.n` for a message
+    that can be skipped entirely). -/
+inductive Sit (msg : Bytes) (L : Lay) (nq nr : Nat) : Reader → Option Marker → Prop
+  | dead (r : Reader) : r.done = true → Sit msg L nq nr r none
+  | ques (r : Reader) : QIdx msg L r → r.tr.qd.read < L.qd → r.tr.qd.read ≤ nq → (∀ j, r.tr.off j = 0) →
+      Sit msg L nq nr r none
+  | recs (r : Reader) : AtIndex msg L r → r.tr.qd.read = L.qd → nq = L.qd → idx r.tr ≤ nr → Sit msg L nq nr r none
+  | mid (r : Reader) (m : Marker) : MidRec msg L r m → r.tr.qd.read = L.qd → nq = L.qd → idx r.tr < nr →
+      Sit msg L nq nr r (some m)
+  | midBad (r : Reader) (m : Marker) : MidBad msg L r m → r.tr.qd.read = L.qd → nq = L.qd → idx r.tr = nr →
+      Sit msg L nq nr r (some m)
 
-/-- ghost invariant: the documented seek criterion for the high-water mark `maxc` -/
-structure Ghost (L : Lay) (r : Reader) (maxc : Nat) : Prop where
+/-- ghost invariant: the documented seek criterion for the high-water mark `maxc`, and: only sections
+    the pass can reach are known -/
+structure Ghost (L : Lay) (nr : Nat) (r : Reader) (maxc : Nat) : Prop where
   doc : r.done = false → DocT L r.tr maxc
   prog : r.done = false → r.tr.qd.read ≤ maxc
+  reach : r.done = false → Reached L nr r.tr
 
 /-- the documented protocol: which call may follow, given the marker of an unconsumed header -/
 def Allowed (r : Reader) (p : Option Marker) : Op → Prop
@@ -816,17 +1427,21 @@ def nextPend (p : Option Marker) : Op → Res Val → Option Marker
   | .seek s, .err (.offsetUnknown _) => p
   | _, _ => none
 
-/-- **seek, all three cases**, from any live reader whose tracker satisfies the coupling invariant -/
-theorem seek_live (msg : Bytes) (L : Lay) (hL : L.WF) (hP : PassAll msg L) (r : Reader) (maxc : Nat)
+/-- **seek, all cases**, from any live reader whose tracker satisfies the coupling invariant -/
+theorem seek_live (msg : Bytes) (L : Lay) (hL : L.WF) {nq nr : Nat} (hP : PassUpto msg L nq nr) (hpad : Pad L nr)
+    (hF : Fails msg L nq nr) (r : Reader) (maxc : Nat)
     (hinv : RInv msg r) (horig : r.cur.orig = none) (hlive : r.done = false) (hT : TInv L r.tr) (s : Nat) (hs : s < 3)
-    (hD : DocT L r.tr maxc) :
+    (hD : DocT L r.tr maxc) (hR : Reached L nr r.tr) :
     (r.tr.off s ≠ 0 → ∃ r', r.seek msg s = (.ok (), r') ∧ AtIndex msg L r' ∧ idx r'.tr = L.start s ∧
         r'.tr.qd = r.tr.qd ∧ r'.tr.off = r.tr.off) ∧
     (r.tr.off s = 0 → r.cur.pos ≠ 12 → r.seek msg s = (.err (.offsetUnknown s), r)) ∧
-    (r.tr.off s = 0 → r.cur.pos = 12 → QIdx msg L r → r.tr.qd.read ≤ maxc →
+    (r.tr.off s = 0 → r.cur.pos = 12 → QIdx msg L r → r.tr.qd.read ≤ maxc → nq = L.qd → L.start s ≤ nr →
       ∃ r', r.seek msg s = (.ok (), r') ∧ AtIndex msg L r' ∧ idx r'.tr = L.start s ∧ r'.tr.qd.read = L.qd ∧
-        (∀ j, r.tr.off j ≠ 0 → r'.tr.off j ≠ 0) ∧ DocT L r'.tr (max maxc (L.qd + L.start s))) := by
-  refine ⟨?_, ?_, ?_⟩
+        (∀ j, r.tr.off j ≠ 0 → r'.tr.off j ≠ 0) ∧ DocT L r'.tr (max maxc (L.qd + L.start s)) ∧ Reached L nr r'.tr) ∧
+    (r.tr.off s = 0 → r.cur.pos = 12 → QIdx msg L r → r.tr.qd.read ≤ maxc → r.tr.qd.read ≤ nq →
+      (nq < L.qd ∨ nr < L.start s) →
+      (∃ e r', r.seek msg s = (.err e, r') ∧ r'.done = true) ∨ (∃ p r', r.seek msg s = (.panic p, r'))) := by
+  refine ⟨?_, ?_, ?_, ?_⟩
   · intro hk
     obtain ⟨r', he, hd', hT', hi', hp'⟩ := seek_lands L msg r hT s hs hlive hk
     obtain ⟨he2, ho2, hq2, _⟩ := seek_known msg r s hlive hk
@@ -839,12 +1454,23 @@ theorem seek_live (msg : Bytes) (L : Lay) (hL : L.WF) (hP : PassAll msg L) (r : 
   · intro hz hne
     have : r.tr.sectionOffset s = none := by simp [Tracker.sectionOffset, hz]
     simp only [Reader.seek, hlive, Bool.false_eq_true, if_false, this, HEADER_LENGTH, hne, ne_eq, not_false_eq_true, if_true]
-  · intro hz h12 hQ hprog
+  · intro hz h12 hQ hprog hnq hsn
     have hso : r.tr.sectionOffset s = none := by simp [Tracker.sectionOffset, hz]
-    obtain ⟨r', he, hA', hi', hrd', hm', hD'⟩ := seekImpl_pass msg L hL hP r maxc hQ s hs hD hprog
-    refine ⟨r', ?_, hA', hi', hrd', hm', hD'⟩
+    obtain ⟨r', he, hA', hi', hrd', hm', hD', hR'⟩ := seekImpl_pass msg L hL hP hnq hpad r maxc hQ s hs hsn hD hprog hR
+    refine ⟨r', ?_, hA', hi', hrd', hm', hD', hR'⟩
     simp only [Reader.seek, hlive, Bool.false_eq_true, if_false, hso, HEADER_LENGTH, h12, ne_eq, not_true_eq_false, he,
       markDone]
+  · intro hz h12 hQ hprog hle hb
+    have hso : r.tr.sectionOffset s = none := by simp [Tracker.sectionOffset, hz]
+    rcases seekImpl_fail msg L hL hP hpad hF r maxc hQ hle s hs hb hD hprog hR with ⟨e, r', he⟩ | ⟨p, r', he⟩
+    · left
+      refine ⟨e, { r' with done := true }, ?_, rfl⟩
+      simp only [Reader.seek, hlive, Bool.false_eq_true, if_false, hso, HEADER_LENGTH, h12, ne_eq, not_true_eq_false, he,
+        markDone]
+    · right
+      refine ⟨p, r', ?_⟩
+      simp only [Reader.seek, hlive, Bool.false_eq_true, if_false, hso, HEADER_LENGTH, h12, ne_eq, not_true_eq_false, he,
+        markDone]
 
 @[simp] theorem mapVal_ok {α} (f : α → Val) (a : α) (r : Reader) : mapVal f (.ok a, r) = (.ok (f a), r) := rfl
 @[simp] theorem mapVal_err {α} (f : α → Val) (e : Err) (r : Reader) : mapVal f ((.err e : Res α), r) = (.err e, r) := rfl
@@ -854,13 +1480,14 @@ theorem seek_live (msg : Bytes) (L : Lay) (hL : L.WF) (hP : PassAll msg L) (r : 
 /-- a step outcome that is not a panic -/
 def NoPanic (x : Res Val × Reader) : Prop := ∀ p, x.1 ≠ .panic p
 
-theorem Ghost.dead {L : Lay} {r : Reader} (h : r.done = true) (maxc : Nat) : Ghost L r maxc :=
-  ⟨fun hd => by rw [h] at hd; exact absurd hd (by simp), fun hd => by rw [h] at hd; exact absurd hd (by simp)⟩
+theorem Ghost.dead {L : Lay} {nr : Nat} {r : Reader} (h : r.done = true) (maxc : Nat) : Ghost L nr r maxc :=
+  ⟨fun hd => by rw [h] at hd; exact absurd hd (by simp), fun hd => by rw [h] at hd; exact absurd hd (by simp),
+    fun hd => by rw [h] at hd; exact absurd hd (by simp)⟩
 
 /-- **dead.** An exhausted / failed reader stays that way under every allowed call. -/
-theorem step_dead (msg : Bytes) (L : Lay) (r : Reader) (hd : r.done = true) (op : Op) (ha : Allowed r none op)
+theorem step_dead (msg : Bytes) (L : Lay) (nq nr : Nat) (r : Reader) (hd : r.done = true) (op : Op) (ha : Allowed r none op)
     (hnp : NoPanic (r.step msg op)) :
-    Sit msg L (r.step msg op).2 (nextPend none op (r.step msg op).1) ∧ (r.step msg op).2.done = true := by
+    Sit msg L nq nr (r.step msg op).2 (nextPend none op (r.step msg op).1) ∧ (r.step msg op).2.done = true := by
   obtain ⟨hq, hsq, hh, hsk, _, _, _⟩ := done_sticky msg r hd
   cases op with
   | header => exact absurd ha (by simp [Allowed])
@@ -880,25 +1507,33 @@ theorem step_dead (msg : Bytes) (L : Lay) (r : Reader) (hd : r.done = true) (op 
   | nameRefAt m => exact ⟨Sit.dead r hd, hd⟩
 
 /-- what every allowed, non-panicking call must re-establish -/
-def StepGoal (msg : Bytes) (L : Lay) (r : Reader) (p : Option Marker) (maxc : Nat) (op : Op) : Prop :=
-  ∃ maxc', maxc ≤ maxc' ∧ Sit msg L (r.step msg op).2 (nextPend p op (r.step msg op).1) ∧
-    Ghost L (r.step msg op).2 maxc'
+def StepGoal (msg : Bytes) (L : Lay) (nq nr : Nat) (r : Reader) (p : Option Marker) (maxc : Nat) (op : Op) : Prop :=
+  ∃ maxc', maxc ≤ maxc' ∧ Sit msg L nq nr (r.step msg op).2 (nextPend p op (r.step msg op).1) ∧
+    Ghost L nr (r.step msg op).2 maxc'
 
-theorem Ghost.mono_off {L : Lay} {r r' : Reader} {maxc : Nat} (h : Ghost L r maxc) (hl : r.done = false)
-    (hm : ∀ j, r.tr.off j ≠ 0 → r'.tr.off j ≠ 0) (hq : r'.tr.qd.read = r.tr.qd.read) : Ghost L r' maxc :=
-  ⟨fun _ => (h.doc hl).mono hm, fun _ => by rw [hq]; exact h.prog hl⟩
+theorem Ghost.mono_off {L : Lay} {nr : Nat} {r r' : Reader} {maxc : Nat} (h : Ghost L nr r maxc) (hl : r.done = false)
+    (hm : ∀ j, r.tr.off j ≠ 0 → r'.tr.off j ≠ 0) (hq : r'.tr.qd.read = r.tr.qd.read) (hR : Reached L nr r'.tr) :
+    Ghost L nr r' maxc :=
+  ⟨fun _ => (h.doc hl).mono hm, fun _ => by rw [hq]; exact h.prog hl, fun _ => hR⟩
 
-/-- the common part of the four data calls, given the outcome -/
-theorem mid_data (msg : Bytes) (L : Lay) (hL : L.WF) (r : Reader) (m : Marker) (maxc : Nat) (hM : MidRec msg L r m)
-    (hq : r.tr.qd.read = L.qd) (hG : Ghost L r maxc) {α : Type} (x : Res α × Reader) (f : α → Val)
+theorem noUB_of_stepOK {msg : Bytes} {α : Type} {x : Res α × Reader} (h : StepOK msg x) : ∀ r2, x ≠ (.ub, r2) := by
+  intro r2 he
+  rw [he] at h
+  exact absurd h.1 (by simp [Res.noUB])
+
+/-- the common part of the four data calls from the middle of a skippable record, given the outcome -/
+theorem mid_data (msg : Bytes) (L : Lay) (hL : L.WF) {nq nr : Nat} (hP : PassUpto msg L nq nr) (hpad : Pad L nr)
+    (r : Reader) (m : Marker) (maxc : Nat) (hM : MidRec msg L r m)
+    (hq : r.tr.qd.read = L.qd) (hnq : nq = L.qd) (hlt : idx r.tr < nr) (hG : Ghost L nr r maxc) {α : Type}
+    (x : Res α × Reader) (f : α → Val)
     (hok : ∀ v r2, x = (.ok v, r2) → DataCall msg r r2 m) (herr : ∀ e r2, x = (.err e, r2) → r2.done = true)
     (hnp : ∀ p r2, x ≠ (.panic p, r2)) (hub : ∀ r2, x ≠ (.ub, r2)) :
-    ∃ maxc', maxc ≤ maxc' ∧ Sit msg L (mapVal f x).2 none ∧ Ghost L (mapVal f x).2 maxc' := by
+    ∃ maxc', maxc ≤ maxc' ∧ Sit msg L nq nr (mapVal f x).2 none ∧ Ghost L nr (mapVal f x).2 maxc' := by
   obtain ⟨res, r2⟩ := x
   cases res with
   | ok v =>
-    obtain ⟨hA2, hi2, hq2, hmono, hkn⟩ := data_step msg L hL r r2 m hM (hok v r2 rfl)
-    refine ⟨max maxc (L.qd + idx r.tr + 1), by omega, Sit.recs r2 hA2 (by rw [hq2]; exact hq), ?_, ?_⟩
+    obtain ⟨hA2, hi2, hq2, hmono, hkn, hcases⟩ := data_step msg L hL r r2 m hM (hok v r2 rfl)
+    refine ⟨max maxc (L.qd + idx r.tr + 1), by omega, Sit.recs r2 hA2 (by rw [hq2]; exact hq) hnq (by omega), ?_, ?_, ?_⟩
     · intro _
       exact DocT.data (hG.doc hM.live) hM.tinv m.section_ hM.sec hM.known hmono hkn
     · intro _
@@ -906,24 +1541,22 @@ theorem mid_data (msg : Bytes) (L : Lay) (hL : L.WF) (r : Reader) (m : Marker) (
       rw [hq2]
       have := hG.prog hM.live
       omega
+    · intro _
+      exact reached_at hL hP hnq hpad hA2.tinv (hG.reach hM.live) (idx r.tr + 1) (by omega) hcases
   | err e =>
     have := herr e r2 rfl
     exact ⟨maxc, Nat.le_refl _, Sit.dead r2 this, Ghost.dead this maxc⟩
   | panic p => exact absurd rfl (hnp p r2)
   | ub => exact absurd rfl (hub r2)
 
-theorem noUB_of_stepOK {msg : Bytes} {α : Type} {x : Res α × Reader} (h : StepOK msg x) : ∀ r2, x ≠ (.ub, r2) := by
-  intro r2 he
-  rw [he] at h
-  exact absurd h.1 (by simp [Res.noUB])
-
 /-- **mid-record.** After a header call, the allowed calls are the data calls with the returned marker,
     seeks, counts and random access. -/
-theorem step_mid (msg : Bytes) (L : Lay) (hL : L.WF) (hP : PassAll msg L) (r : Reader) (m : Marker) (maxc : Nat)
-    (hM : MidRec msg L r m) (hq : r.tr.qd.read = L.qd) (hG : Ghost L r maxc) (op : Op) (ha : Allowed r (some m) op)
-    (hnp : NoPanic (r.step msg op)) : StepGoal msg L r (some m) maxc op := by
-  have hsame : StepGoal msg L r (some m) maxc .questionsCount :=
-    ⟨maxc, Nat.le_refl _, Sit.mid r m hM hq, hG⟩
+theorem step_mid (msg : Bytes) (L : Lay) (hL : L.WF) {nq nr : Nat} (hP : PassUpto msg L nq nr) (hpad : Pad L nr)
+    (hF : Fails msg L nq nr) (r : Reader) (m : Marker) (maxc : Nat)
+    (hM : MidRec msg L r m) (hq : r.tr.qd.read = L.qd) (hnq : nq = L.qd) (hlt : idx r.tr < nr) (hG : Ghost L nr r maxc)
+    (op : Op) (ha : Allowed r (some m) op) (hnp : NoPanic (r.step msg op)) : StepGoal msg L nq nr r (some m) maxc op := by
+  have hsame : StepGoal msg L nq nr r (some m) maxc .questionsCount :=
+    ⟨maxc, Nat.le_refl _, Sit.mid r m hM hq hnq hlt, hG⟩
   cases op with
   | header => exact absurd ha (by simp [Allowed])
   | question k => simp [Allowed] at ha
@@ -934,7 +1567,7 @@ theorem step_mid (msg : Bytes) (L : Lay) (hL : L.WF) (hP : PassAll msg L) (r : R
     subst ha
     unfold StepGoal
     simp only [Reader.step, nextPend]
-    exact mid_data msg L hL r m maxc hM hq hG (r.skipData m) _ (fun v r2 h => Or.inl (by rw [h]))
+    exact mid_data msg L hL hP hpad r m maxc hM hq hnq hlt hG (r.skipData m) _ (fun v r2 h => Or.inl (by rw [h]))
       (fun e r2 h => data_fail msg r r2 m .a e (Or.inl h))
       (fun p r2 h => hnp p (by simp [Reader.step, h]))
       (noUB_of_stepOK (skipData_ok hM.inv m))
@@ -943,7 +1576,7 @@ theorem step_mid (msg : Bytes) (L : Lay) (hL : L.WF) (hP : PassAll msg L) (r : R
     subst ha
     unfold StepGoal
     simp only [Reader.step, nextPend]
-    exact mid_data msg L hL r m maxc hM hq hG (r.dataBytes msg m) _ (fun v r2 h => Or.inr (Or.inl ⟨v, h⟩))
+    exact mid_data msg L hL hP hpad r m maxc hM hq hnq hlt hG (r.dataBytes msg m) _ (fun v r2 h => Or.inr (Or.inl ⟨v, h⟩))
       (fun e r2 h => data_fail msg r r2 m .a e (Or.inr (Or.inl h)))
       (fun p r2 h => hnp p (by simp [Reader.step, h]))
       (noUB_of_stepOK (dataBytes_ok hM.inv m))
@@ -952,7 +1585,8 @@ theorem step_mid (msg : Bytes) (L : Lay) (hL : L.WF) (hP : PassAll msg L) (r : R
     subst ha
     unfold StepGoal
     simp only [Reader.step, nextPend]
-    exact mid_data msg L hL r m maxc hM hq hG (r.data msg t m) _ (fun v r2 h => Or.inr (Or.inr (Or.inl ⟨t, v, h⟩)))
+    exact mid_data msg L hL hP hpad r m maxc hM hq hnq hlt hG (r.data msg t m) _
+      (fun v r2 h => Or.inr (Or.inr (Or.inl ⟨t, v, h⟩)))
       (fun e r2 h => data_fail msg r r2 m t e (Or.inr (Or.inr (Or.inl h))))
       (fun p r2 h => hnp p (by simp [Reader.step, h]))
       (noUB_of_stepOK (data_ok hM.inv t m))
@@ -962,26 +1596,120 @@ theorem step_mid (msg : Bytes) (L : Lay) (hL : L.WF) (hP : PassAll msg L) (r : R
     subst ha
     unfold StepGoal
     simp only [Reader.step, nextPend]
-    exact mid_data msg L hL r m maxc hM hq hG (r.optRecord m) _ (fun v r2 h => Or.inr (Or.inr (Or.inr ⟨v, h⟩)))
+    exact mid_data msg L hL hP hpad r m maxc hM hq hnq hlt hG (r.optRecord m) _
+      (fun v r2 h => Or.inr (Or.inr (Or.inr ⟨v, h⟩)))
       (fun e r2 h => data_fail msg r r2 m .a e (Or.inr (Or.inr (Or.inr h))))
       (fun p r2 h => hnp p (by simp [Reader.step, h]))
       (noUB_of_stepOK (optRecord_ok hM.inv m))
   | seek s =>
     simp only [Allowed] at ha
-    obtain ⟨hk, hu, _⟩ := seek_live msg L hL hP r maxc hM.inv hM.orig hM.live hM.tinv s ha (hG.doc hM.live)
+    obtain ⟨hk, hu, _, _⟩ := seek_live msg L hL hP hpad hF r maxc hM.inv hM.orig hM.live hM.tinv s ha (hG.doc hM.live)
+      (hG.reach hM.live)
     by_cases hz : r.tr.off s = 0
     · -- unknown: the reader stands inside a record, far behind offset 12
-      have hge := PassAll.r_ge hL hP (idx r.tr) (by have := hM.lt; omega)
+      have hge := PassUpto.r_ge hL hP hnq (idx r.tr) (by omega)
       have hne : r.cur.pos ≠ 12 := by rw [hM.pos]; have := hM.gt; omega
       have he := hu hz hne
       unfold StepGoal
       simp only [Reader.step, he, mapVal_err, nextPend]
-      exact ⟨maxc, Nat.le_refl _, Sit.mid r m hM hq, hG⟩
+      exact ⟨maxc, Nat.le_refl _, Sit.mid r m hM hq hnq hlt, hG⟩
     · obtain ⟨r', he, hA', hi', hq', ho'⟩ := hk hz
       unfold StepGoal
       simp only [Reader.step, he, mapVal_ok, nextPend]
-      refine ⟨maxc, Nat.le_refl _, Sit.recs r' hA' (by rw [hq']; exact hq), ?_⟩
-      exact hG.mono_off hM.live (fun j hj => by rw [ho']; exact hj) (by rw [hq'])
+      have hsn : L.start s ≤ nr := hG.reach hM.live s ha hz
+      refine ⟨maxc, Nat.le_refl _, Sit.recs r' hA' (by rw [hq']; exact hq) hnq (by omega), ?_⟩
+      exact hG.mono_off hM.live (fun j hj => by rw [ho']; exact hj) (by rw [hq']) ((hG.reach hM.live).congr ho')
+  | questionsCount => exact hsame
+  | recordsCount => exact hsame
+  | recordsCountIn s => exact hsame
+  | dataBytesAt m' => exact hsame
+  | dataAt t m' => exact hsame
+  | nameRefAt m' => exact hsame
+
+/-- the data calls on the record that cannot be skipped: they fail and latch -/
+theorem midBad_step_data (msg : Bytes) (L : Lay) {nq nr : Nat} (r : Reader) (m : Marker) (maxc : Nat)
+    (hM : MidBad msg L r m) {α : Type} (x : Res α × Reader) (f : α → Val)
+    (hok : ∀ v r2, x = (.ok v, r2) → DataCall msg r r2 m) (herr : ∀ e r2, x = (.err e, r2) → r2.done = true)
+    (hnp : ∀ p r2, x ≠ (.panic p, r2)) (hub : ∀ r2, x ≠ (.ub, r2)) :
+    ∃ maxc', maxc ≤ maxc' ∧ Sit msg L nq nr (mapVal f x).2 none ∧ Ghost L nr (mapVal f x).2 maxc' := by
+  obtain ⟨res, r2⟩ := x
+  cases res with
+  | ok v => exact (midBad_data hM (hok v r2 rfl)).elim
+  | err e =>
+    have := herr e r2 rfl
+    exact ⟨maxc, Nat.le_refl _, Sit.dead r2 this, Ghost.dead this maxc⟩
+  | panic p => exact absurd rfl (hnp p r2)
+  | ub => exact absurd rfl (hub r2)
+
+/-- **inside the record that cannot be skipped.** Its header was returned; every data call fails and
+    latches, seeks and counts behave as inside any record. -/
+theorem step_midBad (msg : Bytes) (L : Lay) (hL : L.WF) {nq nr : Nat} (hP : PassUpto msg L nq nr) (hpad : Pad L nr)
+    (hF : Fails msg L nq nr) (r : Reader) (m : Marker) (maxc : Nat)
+    (hM : MidBad msg L r m) (hq : r.tr.qd.read = L.qd) (hnq : nq = L.qd) (hi : idx r.tr = nr) (hG : Ghost L nr r maxc)
+    (op : Op) (ha : Allowed r (some m) op) (hnp : NoPanic (r.step msg op)) : StepGoal msg L nq nr r (some m) maxc op := by
+  have hsame : StepGoal msg L nq nr r (some m) maxc .questionsCount :=
+    ⟨maxc, Nat.le_refl _, Sit.midBad r m hM hq hnq hi, hG⟩
+  cases op with
+  | header => exact absurd ha (by simp [Allowed])
+  | question k => simp [Allowed] at ha
+  | skipQuestions => simp [Allowed] at ha
+  | recordHeader k => simp [Allowed] at ha
+  | skipData m' =>
+    simp only [Allowed, Option.some.injEq] at ha
+    subst ha
+    unfold StepGoal
+    simp only [Reader.step, nextPend]
+    exact midBad_step_data msg L r m maxc hM (r.skipData m) _ (fun v r2 h => Or.inl (by rw [h]))
+      (fun e r2 h => data_fail msg r r2 m .a e (Or.inl h))
+      (fun p r2 h => hnp p (by simp [Reader.step, h]))
+      (noUB_of_stepOK (skipData_ok hM.inv m))
+  | dataBytes m' =>
+    simp only [Allowed, Option.some.injEq] at ha
+    subst ha
+    unfold StepGoal
+    simp only [Reader.step, nextPend]
+    exact midBad_step_data msg L r m maxc hM (r.dataBytes msg m) _ (fun v r2 h => Or.inr (Or.inl ⟨v, h⟩))
+      (fun e r2 h => data_fail msg r r2 m .a e (Or.inr (Or.inl h)))
+      (fun p r2 h => hnp p (by simp [Reader.step, h]))
+      (noUB_of_stepOK (dataBytes_ok hM.inv m))
+  | data t m' =>
+    simp only [Allowed, Option.some.injEq] at ha
+    subst ha
+    unfold StepGoal
+    simp only [Reader.step, nextPend]
+    exact midBad_step_data msg L r m maxc hM (r.data msg t m) _
+      (fun v r2 h => Or.inr (Or.inr (Or.inl ⟨t, v, h⟩)))
+      (fun e r2 h => data_fail msg r r2 m t e (Or.inr (Or.inr (Or.inl h))))
+      (fun p r2 h => hnp p (by simp [Reader.step, h]))
+      (noUB_of_stepOK (data_ok hM.inv t m))
+  | optRecord m' =>
+    simp only [Allowed, Option.some.injEq] at ha
+    obtain ⟨ha, _⟩ := ha
+    subst ha
+    unfold StepGoal
+    simp only [Reader.step, nextPend]
+    exact midBad_step_data msg L r m maxc hM (r.optRecord m) _
+      (fun v r2 h => Or.inr (Or.inr (Or.inr ⟨v, h⟩)))
+      (fun e r2 h => data_fail msg r r2 m .a e (Or.inr (Or.inr (Or.inr h))))
+      (fun p r2 h => hnp p (by simp [Reader.step, h]))
+      (noUB_of_stepOK (optRecord_ok hM.inv m))
+  | seek s =>
+    simp only [Allowed] at ha
+    obtain ⟨hk, hu, _, _⟩ := seek_live msg L hL hP hpad hF r maxc hM.inv hM.orig hM.live hM.tinv s ha (hG.doc hM.live)
+      (hG.reach hM.live)
+    by_cases hz : r.tr.off s = 0
+    · have hge := PassUpto.r_ge hL hP hnq (idx r.tr) (by omega)
+      have hne : r.cur.pos ≠ 12 := by rw [hM.pos]; have := hM.gt; omega
+      have he := hu hz hne
+      unfold StepGoal
+      simp only [Reader.step, he, mapVal_err, nextPend]
+      exact ⟨maxc, Nat.le_refl _, Sit.midBad r m hM hq hnq hi, hG⟩
+    · obtain ⟨r', he, hA', hi', hq', ho'⟩ := hk hz
+      unfold StepGoal
+      simp only [Reader.step, he, mapVal_ok, nextPend]
+      have hsn : L.start s ≤ nr := hG.reach hM.live s ha hz
+      refine ⟨maxc, Nat.le_refl _, Sit.recs r' hA' (by rw [hq']; exact hq) hnq (by omega), ?_⟩
+      exact hG.mono_off hM.live (fun j hj => by rw [ho']; exact hj) (by rw [hq']) ((hG.reach hM.live).congr ho')
   | questionsCount => exact hsame
   | recordsCount => exact hsame
   | recordsCountIn s => exact hsame
@@ -998,11 +1726,13 @@ theorem idx_le_n {L : Lay} {t : Tracker} (h : TInv L t) : idx t ≤ L.n := by
   unfold idx Lay.n; omega
 
 /-- **between records.** -/
-theorem step_recs (msg : Bytes) (L : Lay) (hL : L.WF) (hP : PassAll msg L) (r : Reader) (maxc : Nat)
-    (hA : AtIndex msg L r) (hq : r.tr.qd.read = L.qd) (hG : Ghost L r maxc) (op : Op) (ha : Allowed r none op)
-    (hnp : NoPanic (r.step msg op)) : StepGoal msg L r none maxc op := by
-  have hsame : StepGoal msg L r none maxc .questionsCount := ⟨maxc, Nat.le_refl _, Sit.recs r hA hq, hG⟩
+theorem step_recs (msg : Bytes) (L : Lay) (hL : L.WF) {nq nr : Nat} (hP : PassUpto msg L nq nr) (hpad : Pad L nr)
+    (hF : Fails msg L nq nr) (r : Reader) (maxc : Nat)
+    (hA : AtIndex msg L r) (hq : r.tr.qd.read = L.qd) (hnq : nq = L.qd) (hle : idx r.tr ≤ nr) (hG : Ghost L nr r maxc)
+    (op : Op) (ha : Allowed r none op) (hnp : NoPanic (r.step msg op)) : StepGoal msg L nq nr r none maxc op := by
+  have hsame : StepGoal msg L nq nr r none maxc .questionsCount := ⟨maxc, Nat.le_refl _, Sit.recs r hA hq hnq hle, hG⟩
   have htq := hA.tinv.tq
+  have hR := hG.reach hA.live
   cases op with
   | header => exact absurd ha (by simp [Allowed])
   | question k =>
@@ -1016,69 +1746,96 @@ theorem step_recs (msg : Bytes) (L : Lay) (hL : L.WF) (hP : PassAll msg L) (r : 
     · rw [hA.live] at hd; cases hd
     · have hQ := hA.toQIdx hL hi0 hq
       have hqf : L.qd - r.tr.qd.read < r.qFuel := by simp only [Reader.qFuel, htq]; omega
-      obtain ⟨r', he, hQ', hrd', hm', hD'⟩ := skipQuestionsImpl_pass msg L hL hP r.qFuel r maxc hQ hqf (hG.doc hA.live)
+      obtain ⟨r', he, hQ', hrd', hm', hD', hR'⟩ := skipQuestionsImpl_pass msg L hL hP hnq hpad r.qFuel r maxc hQ hqf
+        (hG.doc hA.live) hR
       unfold StepGoal
       simp only [Reader.step, Reader.skipQuestions, hA.live, Bool.false_eq_true, if_false, he, markDone, mapVal_ok,
         nextPend]
-      refine ⟨maxc, Nat.le_refl _, Sit.recs r' (hQ'.toAtIndex hL hrd') hrd', ?_⟩
-      refine ⟨fun _ => ?_, fun _ => by rw [hrd', ← hq]; exact hG.prog hA.live⟩
+      refine ⟨maxc, Nat.le_refl _, Sit.recs r' (hQ'.toAtIndex hL hrd') hrd' hnq (by rw [hQ'.idx0]; omega), ?_⟩
+      refine ⟨fun _ => ?_, fun _ => by rw [hrd', ← hq]; exact hG.prog hA.live, fun _ => hR'⟩
       have hnl : ¬ r.tr.qd.read < L.qd := by omega
       simpa [hnl] using hD'
   | recordHeader k =>
-    by_cases hi : idx r.tr < L.n
-    · rcases header_step msg L hL hP r hA hi k with ⟨hn, m, r1, he, hM, hi1, hq1, hm1⟩ | ⟨e, r1, he, hd1⟩ | ⟨p, r1, he⟩
+    by_cases hi : idx r.tr < nr
+    · rcases header_step msg L hL hP r hA hi k with
+        ⟨hn, m, r1, he, hM, hi1, hq1, hm1, hc1⟩ | ⟨e, r1, he, hd1⟩ | ⟨p, r1, he⟩
       · unfold StepGoal
         simp only [Reader.step, he, mapVal_ok, nextPend]
-        refine ⟨maxc, Nat.le_refl _, Sit.mid r1 m hM (by rw [hq1]; exact hq), ?_⟩
-        exact hG.mono_off hA.live hm1 (by rw [hq1])
+        refine ⟨maxc, Nat.le_refl _, Sit.mid r1 m hM (by rw [hq1]; exact hq) hnq (by rw [hi1]; exact hi), ?_⟩
+        exact hG.mono_off hA.live hm1 (by rw [hq1]) (reached_at hL hP hnq hpad hM.tinv hR (idx r.tr) hle hc1)
       · unfold StepGoal
         simp only [Reader.step, he, mapVal_err, nextPend]
         exact ⟨maxc, Nat.le_refl _, Sit.dead r1 hd1, Ghost.dead hd1 maxc⟩
       · exact absurd (by simp [Reader.step, he]) (hnp p)
-    · have hin : idx r.tr = L.n := by have := idx_le_n hA.tinv; omega
-      have hex := exhausted_reports_done msg r k hA.live (by
-        intro j hj
-        have l0 := hA.tinv.le0; have l1 := hA.tinv.le1; have l2 := hA.tinv.le2
-        have t0 := hA.tinv.t0; have t1 := hA.tinv.t1; have t2 := hA.tinv.t2
-        simp only [idx, Lay.n] at hin
-        have : j = 0 ∨ j = 1 ∨ j = 2 := by omega
-        rcases this with rfl | rfl | rfl <;> omega)
-      cases hres : r.recordHeader msg k with
-      | mk res r1 =>
-        rw [hres] at hex
-        simp only at hex
-        unfold StepGoal
-        simp only [Reader.step, hres, hex.1, mapVal_err, nextPend]
-        exact ⟨maxc, Nat.le_refl _, Sit.dead r1 hex.2, Ghost.dead hex.2 maxc⟩
+    · have hin : idx r.tr = nr := by omega
+      by_cases hlast : nr < L.n
+      · -- the record that cannot be skipped
+        have hfail := hF.r hnq hlast
+        rw [← hin] at hfail
+        rcases bad_header msg L hL r hA (by omega) hfail k with
+          ⟨hn, m, r1, he, hM, hi1, hq1, hm1, hc1⟩ | ⟨e, r1, he, hd1⟩ | ⟨p, r1, he⟩
+        · unfold StepGoal
+          simp only [Reader.step, he, mapVal_ok, nextPend]
+          refine ⟨maxc, Nat.le_refl _, Sit.midBad r1 m hM (by rw [hq1]; exact hq) hnq (by rw [hi1]; exact hin), ?_⟩
+          exact hG.mono_off hA.live hm1 (by rw [hq1]) (reached_at hL hP hnq hpad hM.tinv hR (idx r.tr) hle hc1)
+        · unfold StepGoal
+          simp only [Reader.step, he, mapVal_err, nextPend]
+          exact ⟨maxc, Nat.le_refl _, Sit.dead r1 hd1, Ghost.dead hd1 maxc⟩
+        · exact absurd (by simp [Reader.step, he]) (hnp p)
+      · have hinL : idx r.tr = L.n := by have := hP.nr_le; omega
+        have hex := exhausted_reports_done msg r k hA.live (by
+          intro j hj
+          have l0 := hA.tinv.le0; have l1 := hA.tinv.le1; have l2 := hA.tinv.le2
+          have t0 := hA.tinv.t0; have t1 := hA.tinv.t1; have t2 := hA.tinv.t2
+          simp only [idx, Lay.n] at hinL
+          have : j = 0 ∨ j = 1 ∨ j = 2 := by omega
+          rcases this with rfl | rfl | rfl <;> omega)
+        cases hres : r.recordHeader msg k with
+        | mk res r1 =>
+          rw [hres] at hex
+          simp only at hex
+          unfold StepGoal
+          simp only [Reader.step, hres, hex.1, mapVal_err, nextPend]
+          exact ⟨maxc, Nat.le_refl _, Sit.dead r1 hex.2, Ghost.dead hex.2 maxc⟩
   | skipData m' => simp [Allowed] at ha
   | dataBytes m' => simp [Allowed] at ha
   | data t m' => simp [Allowed] at ha
   | optRecord m' => simp [Allowed] at ha
   | seek s =>
     simp only [Allowed] at ha
-    obtain ⟨hk, hu, h12⟩ := seek_live msg L hL hP r maxc hA.inv hA.orig hA.live hA.tinv s ha (hG.doc hA.live)
+    obtain ⟨hk, hu, h12, h12f⟩ := seek_live msg L hL hP hpad hF r maxc hA.inv hA.orig hA.live hA.tinv s ha (hG.doc hA.live) hR
     by_cases hz : r.tr.off s = 0
     · by_cases hp12 : r.cur.pos = 12
       · -- offset 12 with everything read in front: no question and no record in front
-        have hge := PassAll.r_ge hL hP (idx r.tr) (idx_le_n hA.tinv)
+        have hge := PassUpto.r_ge hL hP hnq (idx r.tr) hle
         rw [← hA.pos, hp12] at hge
         have hqd0 : L.qd = 0 := by omega
         have hi0 : idx r.tr = 0 := by omega
         have hQ := hA.toQIdx hL hi0 hq
-        obtain ⟨r', he, hA', hi', hrd', hm', hD'⟩ := h12 hz hp12 hQ (by rw [hq, hqd0]; omega)
-        unfold StepGoal
-        simp only [Reader.step, he, mapVal_ok, nextPend]
-        refine ⟨max maxc (L.qd + L.start s), by omega, Sit.recs r' hA' hrd', fun _ => hD', fun _ => ?_⟩
-        rw [hrd', hqd0]; omega
+        by_cases hsn : L.start s ≤ nr
+        · obtain ⟨r', he, hA', hi', hrd', hm', hD', hR'⟩ := h12 hz hp12 hQ (by rw [hq, hqd0]; omega) hnq hsn
+          unfold StepGoal
+          simp only [Reader.step, he, mapVal_ok, nextPend]
+          refine ⟨max maxc (L.qd + L.start s), by omega, Sit.recs r' hA' hrd' hnq (by omega), fun _ => hD', fun _ => ?_,
+            fun _ => hR'⟩
+          rw [hrd', hqd0]; omega
+        · rcases h12f hz hp12 hQ (by rw [hq, hqd0]; omega) (by omega) (Or.inr (by omega)) with ⟨e, r', he, hd'⟩ | ⟨p, r', he⟩
+          · unfold StepGoal
+            simp only [Reader.step, he, mapVal_err]
+            have : nextPend none (.seek s) (.err e) = none := by cases e <;> rfl
+            rw [this]
+            exact ⟨maxc, Nat.le_refl _, Sit.dead r' hd', Ghost.dead hd' maxc⟩
+          · exact absurd (by simp [Reader.step, he]) (hnp p)
       · have he := hu hz hp12
         unfold StepGoal
         simp only [Reader.step, he, mapVal_err, nextPend]
-        exact ⟨maxc, Nat.le_refl _, Sit.recs r hA hq, hG⟩
+        exact ⟨maxc, Nat.le_refl _, Sit.recs r hA hq hnq hle, hG⟩
     · obtain ⟨r', he, hA', hi', hq', ho'⟩ := hk hz
       unfold StepGoal
       simp only [Reader.step, he, mapVal_ok, nextPend]
-      refine ⟨maxc, Nat.le_refl _, Sit.recs r' hA' (by rw [hq']; exact hq), ?_⟩
-      exact hG.mono_off hA.live (fun j hj => by rw [ho']; exact hj) (by rw [hq'])
+      have hsn : L.start s ≤ nr := hR s ha hz
+      refine ⟨maxc, Nat.le_refl _, Sit.recs r' hA' (by rw [hq']; exact hq) hnq (by omega), ?_⟩
+      exact hG.mono_off hA.live (fun j hj => by rw [ho']; exact hj) (by rw [hq']) (hR.congr ho')
   | questionsCount => exact hsame
   | recordsCount => exact hsame
   | recordsCountIn s => exact hsame
@@ -1087,36 +1844,67 @@ theorem step_recs (msg : Bytes) (L : Lay) (hL : L.WF) (hP : PassAll msg L) (r : 
   | nameRefAt m' => exact hsame
 
 /-- **inside the question section.** -/
-theorem step_ques (msg : Bytes) (L : Lay) (hL : L.WF) (hP : PassAll msg L) (r : Reader) (maxc : Nat)
-    (hQ : QIdx msg L r) (hlt : r.tr.qd.read < L.qd) (hz : ∀ j, r.tr.off j = 0) (hG : Ghost L r maxc) (op : Op)
-    (ha : Allowed r none op) (hnp : NoPanic (r.step msg op)) : StepGoal msg L r none maxc op := by
-  have hsame : StepGoal msg L r none maxc .questionsCount := ⟨maxc, Nat.le_refl _, Sit.ques r hQ hlt hz, hG⟩
+theorem step_ques (msg : Bytes) (L : Lay) (hL : L.WF) {nq nr : Nat} (hP : PassUpto msg L nq nr) (hpad : Pad L nr)
+    (hF : Fails msg L nq nr) (r : Reader) (maxc : Nat)
+    (hQ : QIdx msg L r) (hlt : r.tr.qd.read < L.qd) (hleq : r.tr.qd.read ≤ nq) (hz : ∀ j, r.tr.off j = 0)
+    (hG : Ghost L nr r maxc) (op : Op)
+    (ha : Allowed r none op) (hnp : NoPanic (r.step msg op)) : StepGoal msg L nq nr r none maxc op := by
+  have hsame : StepGoal msg L nq nr r none maxc .questionsCount := ⟨maxc, Nat.le_refl _, Sit.ques r hQ hlt hleq hz, hG⟩
   have htq := hQ.tinv.tq
+  have hR := hG.reach hQ.live
   cases op with
   | header => exact absurd ha (by simp [Allowed])
   | question k =>
-    rcases question_step msg L hL hP r hQ hlt k with
-      ⟨q, r1, he, hQ1, hrd1, hsec1, hm1, hkn1, hoff1⟩ | ⟨e, r1, he, hd1⟩ | ⟨p, r1, he⟩
-    · unfold StepGoal
-      simp only [Reader.step, he, mapVal_ok, nextPend]
-      have hG1 : Ghost L r1 (max maxc (r.tr.qd.read + 1)) :=
-        ⟨fun _ => DocT.question (hG.doc hQ.live) hlt hm1 hkn1, fun _ => by rw [hrd1]; omega⟩
-      by_cases hlast : r.tr.qd.read + 1 < L.qd
-      · refine ⟨_, by omega, Sit.ques r1 hQ1 (by rw [hrd1]; exact hlast) ?_, hG1⟩
-        intro j; rw [hoff1 hlast]; exact hz j
-      · have : r1.tr.qd.read = L.qd := by omega
-        exact ⟨_, by omega, Sit.recs r1 (hQ1.toAtIndex hL this) this, hG1⟩
-    · unfold StepGoal
-      simp only [Reader.step, he, mapVal_err, nextPend]
-      exact ⟨maxc, Nat.le_refl _, Sit.dead r1 hd1, Ghost.dead hd1 maxc⟩
-    · exact absurd (by simp [Reader.step, he]) (hnp p)
+    by_cases hltq : r.tr.qd.read < nq
+    · rcases question_step msg L hL hP r hQ hltq k with
+        ⟨q, r1, he, hQ1, hrd1, hsec1, hm1, hkn1, hoff1, hc1⟩ | ⟨e, r1, he, hd1⟩ | ⟨p, r1, he⟩
+      · unfold StepGoal
+        simp only [Reader.step, he, mapVal_ok, nextPend]
+        by_cases hlast : r.tr.qd.read + 1 < L.qd
+        · have hR1 : Reached L nr r1.tr := hR.congr (hoff1 hlast)
+          have hG1 : Ghost L nr r1 (max maxc (r.tr.qd.read + 1)) :=
+            ⟨fun _ => DocT.question (hG.doc hQ.live) hlt hm1 hkn1, fun _ => by rw [hrd1]; omega, fun _ => hR1⟩
+          refine ⟨_, by omega, Sit.ques r1 hQ1 (by rw [hrd1]; exact hlast) (by rw [hrd1]; omega) ?_, hG1⟩
+          intro j; rw [hoff1 hlast]; exact hz j
+        · have hall : r1.tr.qd.read = L.qd := by omega
+          have hnq : nq = L.qd := by have := hP.nq_le; omega
+          have hR1 : Reached L nr r1.tr := by
+            refine reached_at hL hP hnq hpad hQ1.tinv hR 0 (Nat.zero_le _) (fun j => ?_)
+            have := hc1 j
+            rw [show r.tr.qd.read + 1 = L.qd from by omega, ← hL.q0] at this
+            exact this
+          have hG1 : Ghost L nr r1 (max maxc (r.tr.qd.read + 1)) :=
+            ⟨fun _ => DocT.question (hG.doc hQ.live) hlt hm1 hkn1, fun _ => by rw [hrd1]; omega, fun _ => hR1⟩
+          exact ⟨_, by omega, Sit.recs r1 (hQ1.toAtIndex hL hall) hall hnq (by rw [hQ1.idx0]; omega), hG1⟩
+      · unfold StepGoal
+        simp only [Reader.step, he, mapVal_err, nextPend]
+        exact ⟨maxc, Nat.le_refl _, Sit.dead r1 hd1, Ghost.dead hd1 maxc⟩
+      · exact absurd (by simp [Reader.step, he]) (hnp p)
+    · -- the question that cannot be skipped
+      have heq : r.tr.qd.read = nq := by omega
+      have hfail := hF.q (by omega)
+      rw [← heq] at hfail
+      rcases question_fail msg L r hQ hfail k with ⟨e, r1, he, hd1⟩ | ⟨p, r1, he⟩
+      · unfold StepGoal
+        simp only [Reader.step, he, mapVal_err, nextPend]
+        exact ⟨maxc, Nat.le_refl _, Sit.dead r1 hd1, Ghost.dead hd1 maxc⟩
+      · exact absurd (by simp [Reader.step, he]) (hnp p)
   | skipQuestions =>
-    have hqf : L.qd - r.tr.qd.read < r.qFuel := by simp only [Reader.qFuel, htq]; omega
-    obtain ⟨r', he, hQ', hrd', hm', hD'⟩ := skipQuestionsImpl_pass msg L hL hP r.qFuel r maxc hQ hqf (hG.doc hQ.live)
-    unfold StepGoal
-    simp only [Reader.step, Reader.skipQuestions, hQ.live, Bool.false_eq_true, if_false, he, markDone, mapVal_ok, nextPend]
-    refine ⟨max maxc L.qd, by omega, Sit.recs r' (hQ'.toAtIndex hL hrd') hrd', fun _ => ?_, fun _ => by rw [hrd']; omega⟩
-    simpa [hlt] using hD'
+    by_cases hnq : nq = L.qd
+    · have hqf : L.qd - r.tr.qd.read < r.qFuel := by simp only [Reader.qFuel, htq]; omega
+      obtain ⟨r', he, hQ', hrd', hm', hD', hR'⟩ := skipQuestionsImpl_pass msg L hL hP hnq hpad r.qFuel r maxc hQ hqf
+        (hG.doc hQ.live) hR
+      unfold StepGoal
+      simp only [Reader.step, Reader.skipQuestions, hQ.live, Bool.false_eq_true, if_false, he, markDone, mapVal_ok, nextPend]
+      refine ⟨max maxc L.qd, by omega, Sit.recs r' (hQ'.toAtIndex hL hrd') hrd' hnq (by rw [hQ'.idx0]; omega), fun _ => ?_,
+        fun _ => by rw [hrd']; omega, fun _ => hR'⟩
+      simpa [hlt] using hD'
+    · have hnlt : nq < L.qd := by have := hP.nq_le; omega
+      have hqf : nq - r.tr.qd.read < r.qFuel := by simp only [Reader.qFuel, htq]; omega
+      obtain ⟨e, r', he⟩ := skipQuestionsImpl_fail msg L hL hP hnlt (hF.q hnlt) r.qFuel r hQ hleq hqf
+      unfold StepGoal
+      simp only [Reader.step, Reader.skipQuestions, hQ.live, Bool.false_eq_true, if_false, he, markDone, mapVal_err, nextPend]
+      exact ⟨maxc, Nat.le_refl _, Sit.dead _ rfl, Ghost.dead rfl maxc⟩
   | recordHeader k =>
     simp only [Allowed, true_and] at ha
     rcases ha with hd | he
@@ -1128,22 +1916,42 @@ theorem step_ques (msg : Bytes) (L : Lay) (hL : L.WF) (hP : PassAll msg L) (r : 
   | optRecord m' => simp [Allowed] at ha
   | seek s =>
     simp only [Allowed] at ha
-    obtain ⟨_, hu, h12⟩ := seek_live msg L hL hP r maxc hQ.inv hQ.orig hQ.live hQ.tinv s ha (hG.doc hQ.live)
+    obtain ⟨_, hu, h12, h12f⟩ := seek_live msg L hL hP hpad hF r maxc hQ.inv hQ.orig hQ.live hQ.tinv s ha (hG.doc hQ.live) hR
     by_cases hp12 : r.cur.pos = 12
-    · obtain ⟨r', he, hA', hi', hrd', hm', hD'⟩ := h12 (hz s) hp12 hQ (hG.prog hQ.live)
-      unfold StepGoal
-      simp only [Reader.step, he, mapVal_ok, nextPend]
-      exact ⟨max maxc (L.qd + L.start s), by omega, Sit.recs r' hA' hrd', fun _ => hD', fun _ => by rw [hrd']; omega⟩
+    · by_cases hgo : nq = L.qd ∧ L.start s ≤ nr
+      · obtain ⟨r', he, hA', hi', hrd', hm', hD', hR'⟩ := h12 (hz s) hp12 hQ (hG.prog hQ.live) hgo.1 hgo.2
+        unfold StepGoal
+        simp only [Reader.step, he, mapVal_ok, nextPend]
+        exact ⟨max maxc (L.qd + L.start s), by omega, Sit.recs r' hA' hrd' hgo.1 (by omega), fun _ => hD',
+          fun _ => by rw [hrd']; omega, fun _ => hR'⟩
+      · have hb : nq < L.qd ∨ nr < L.start s := by
+          have := hP.nq_le
+          by_cases h1 : nq = L.qd
+          · right; have := fun h => hgo ⟨h1, h⟩; omega
+          · left; omega
+        rcases h12f (hz s) hp12 hQ (hG.prog hQ.live) hleq hb with ⟨e, r', he, hd'⟩ | ⟨p, r', he⟩
+        · unfold StepGoal
+          simp only [Reader.step, he, mapVal_err]
+          have hne : ∀ s', e ≠ .offsetUnknown s' ∨ True := fun _ => Or.inr trivial
+          by_cases hou : ∃ s', e = .offsetUnknown s'
+          · -- a latched error cannot be `RecordsSectionOffsetUnknown` … but the situation is dead either way
+            obtain ⟨s', rfl⟩ := hou
+            simp only [nextPend]
+            exact ⟨maxc, Nat.le_refl _, Sit.dead r' hd', Ghost.dead hd' maxc⟩
+          · have : nextPend none (.seek s) (.err e) = none := by
+              cases e <;> first | rfl | exact absurd ⟨_, rfl⟩ hou
+            rw [this]
+            exact ⟨maxc, Nat.le_refl _, Sit.dead r' hd', Ghost.dead hd' maxc⟩
+        · exact absurd (by simp [Reader.step, he]) (hnp p)
     · have he := hu (hz s) hp12
       unfold StepGoal
       simp only [Reader.step, he, mapVal_err, nextPend]
-      exact ⟨maxc, Nat.le_refl _, Sit.ques r hQ hlt hz, hG⟩
+      exact ⟨maxc, Nat.le_refl _, Sit.ques r hQ hlt hleq hz, hG⟩
   | questionsCount => exact hsame
   | recordsCount => exact hsame
   | recordsCountIn s => exact hsame
   | dataBytesAt m' => exact hsame
   | dataAt t m' => exact hsame
   | nameRefAt m' => exact hsame
-
 
 end Rsdns.C09
